@@ -1,13 +1,18 @@
 (* C05 — proofs about the scanner model's block-scalar code on the string back-end ([str_ops]) against
    Spec/BlockScalar.v.
 
-   Part 0  the monad, a view of scanner states ([mv]), one-step facts about the input primitives on [str_ops]
+   All of Part 3 and Part 4 is proved for the three line-break styles of YAML (LF, CR LF, CR): section variable [brk]
+   with [break_style brk]; the texts are those of the specification with every line feed replaced ([wbrk] =
+   [with_breaks]).
+
+   Part 0  the monad, a view of scanner states ([mv]), one-step facts about the input primitives on [str_ops], breaks
    Part 1  (T1) [nls] / chomping arithmetic
    Part 2  (T2) [scan_block_scalar_content_line]
    Part 3  (T3) [skip_spaces_to], [skip_block_scalar_indent] (both the narrow and the wide-indent path),
                 [skip_first_line_indent]
    Part 4  (T4) [scan_block_scalar], literal and folded style
-   Part 5  the complete statement [C05_full], contexts, pipeline examples, refutation witnesses *)
+   Part 5  the complete statement [C05_full], contexts, pipeline examples, refutation witness, former witnesses
+   (Proofs/BlockScalarCase.v: the same theorems stated on the cases [bcase] / [case_ok] of the specification) *)
 From Coq Require Import List NArith ZArith Bool Arith Lia.
 Import ListNotations.
 Require Import Parser SBase SPrim SDir SScalar BlockScalar.
@@ -77,9 +82,6 @@ Lemma skip_nl_mv : skip_nl str_ops st = Ok (tt, mv s (tl cs) lk (nlm m) true).
 Proof. reflexivity. Qed.
 End Steps.
 
-Lemma skip_break_lf s r lk m w : skip_break str_ops (mv s (10 :: r) lk m w) = Ok (tt, mv s r lk (nlm m) true).
-Proof. reflexivity. Qed.
-
 Lemma raw_read_some s c r lk m w : is_breakz c = false ->
   raw_read str_ops (mv s (c :: r) lk m w) = Ok (Some c, mv s r lk m w).
 Proof. intros H. unfold raw_read. cbn. rewrite H. reflexivity. Qed.
@@ -88,30 +90,90 @@ Lemma raw_read_none s cs lk m w : is_breakz (hd0 cs) = true ->
   raw_read str_ops (mv s cs lk m w) = Ok (None, mv s cs lk m w).
 Proof. intros H. unfold raw_read. destruct cs as [|c r]; cbn; [reflexivity|]. cbn in H. rewrite H. reflexivity. Qed.
 
-(* the mark after reading a text (LF line breaks) *)
 Ltac mstep tac := (eapply bind_ok_eq; [tac | cbv beta match]).
 
-Fixpoint mark_after (m : marker) (t : list chr) : marker :=
+(* ------------------------------------------------------------------------------------------ *)
+(* Line breaks.  Everything below is proved for the three break styles of YAML: LF, CR LF, CR   *)
+(* ------------------------------------------------------------------------------------------ *)
+Definition break_style (brk : list chr) : Prop := brk = [10] \/ brk = [13; 10] \/ brk = [13].
+(* in a text whose breaks are lone CRs a CR is a line break by itself *)
+Definition crnl (brk : list chr) : bool := match brk with [13] => true | _ => false end.
+
+(* the mark after reading a text *)
+Fixpoint mark_after (brk : list chr) (m : marker) (t : list chr) : marker :=
   match t with
   | [] => m
-  | c :: r => mark_after (if c =? 10 then nlm m else adv 1 m) r
+  | c :: r => mark_after brk (if (c =? 10) || ((c =? 13) && crnl brk) then nlm m else adv 1 m) r
   end.
 
-Lemma mark_after_app m a b : mark_after m (a ++ b) = mark_after (mark_after m a) b.
+Lemma mark_after_app brk m a b : mark_after brk m (a ++ b) = mark_after brk (mark_after brk m a) b.
 Proof. revert m; induction a as [|c a IH]; intros m; cbn [app mark_after]; [reflexivity|apply IH]. Qed.
 
-Lemma mark_after_nolf t : Forall (fun c => c <> 10) t -> forall m, mark_after m t = adv (N.of_nat (length t)) m.
+Lemma mark_after_nolf brk t : Forall (fun c => is_break c = false) t -> forall m, mark_after brk m t = adv (N.of_nat (length t)) m.
 Proof.
   induction 1 as [|c r Hc Hr IH]; intros m; cbn [mark_after length].
   - symmetry; apply adv_0.
-  - destruct (N.eqb_spec c 10); [contradiction|]. rewrite IH, adv_adv. f_equal. lia.
+  - unfold is_break in Hc. apply orb_false_iff in Hc. destruct Hc as [H10 H13]. rewrite H10, H13. cbn [orb andb].
+    rewrite IH, adv_adv. f_equal. lia.
 Qed.
 
-Lemma mark_after_spaces k m : mark_after m (sps k) = adv (N.of_nat k) m.
+Lemma mark_after_spaces brk k m : mark_after brk m (sps k) = adv (N.of_nat k) m.
 Proof.
   unfold sps. rewrite mark_after_nolf; [rewrite repeat_length; reflexivity|].
-  apply Forall_forall. intros x Hx. apply repeat_spec in Hx. subst. discriminate.
+  apply Forall_forall. intros x Hx. apply repeat_spec in Hx. subst. reflexivity.
 Qed.
+
+(* what may follow a break: after a lone CR no LF (it would make a CR LF) *)
+Definition follow (brk r : list chr) : Prop := crnl brk = true -> hd0 r <> 10.
+
+Section BreakFacts.
+Variable brk : list chr.
+Hypothesis Hbrk : break_style brk.
+
+Lemma crnl_cr : crnl brk = true -> brk = [13].
+Proof. destruct Hbrk as [->|[->| ->]]; [discriminate|discriminate|reflexivity]. Qed.
+
+Lemma skip_break_brk s r lk m w : follow brk r ->
+  skip_break str_ops (mv s (brk ++ r) lk m w) = Ok (tt, mv s r lk (mark_after brk m brk) true).
+Proof.
+  intros Hf. destruct Hbrk as [->|[->| ->]]; [reflexivity|reflexivity|].
+  unfold skip_break. cbn [app]. mstep ltac:(apply peek_mv). mstep ltac:(apply peekn_mv).
+  change (nth 1 (13 :: r) 0) with (hd0 r).
+  destruct (N.eqb_spec (hd0 r) 10) as [E|_]; [exfalso; apply (Hf eq_refl); exact E|]. reflexivity.
+Qed.
+
+Lemma col_brk m : m_col (mark_after brk m brk) = 0.
+Proof. destruct Hbrk as [->|[->| ->]]; reflexivity. Qed.
+Lemma line_brk m : m_line (mark_after brk m brk) = m_line m + 1.
+Proof. destruct Hbrk as [->|[->| ->]]; reflexivity. Qed.
+
+(* the first character of a break *)
+Lemma hd0_brk r : hd0 (brk ++ r) = 10 \/ hd0 (brk ++ r) = 13.
+Proof. destruct Hbrk as [->|[->| ->]]; [left|right|right]; reflexivity. Qed.
+Lemma brk_is_break r : is_break (hd0 (brk ++ r)) = true.
+Proof. destruct (hd0_brk r) as [-> | ->]; reflexivity. Qed.
+Lemma brk_is_breakz r : is_breakz (hd0 (brk ++ r)) = true.
+Proof. destruct (hd0_brk r) as [-> | ->]; reflexivity. Qed.
+Lemma brk_not_z r : is_z (hd0 (brk ++ r)) = false.
+Proof. destruct (hd0_brk r) as [-> | ->]; reflexivity. Qed.
+Lemma brk_not_space r : hd0 (brk ++ r) <> 32.
+Proof. destruct (hd0_brk r) as [-> | ->]; discriminate. Qed.
+Lemma brk_not_tab r : hd0 (brk ++ r) <> 9.
+Proof. destruct (hd0_brk r) as [-> | ->]; discriminate. Qed.
+Lemma brk_ne : brk <> [].
+Proof. destruct Hbrk as [->|[->| ->]]; discriminate. Qed.
+Lemma brk_split : exists b t, brk = b :: t /\ (b = 10 \/ b = 13).
+Proof. destruct Hbrk as [->|[->| ->]]; eexists; eexists; (split; [reflexivity|]); [left|right|right]; reflexivity. Qed.
+
+Lemma follow_nb r : is_break (hd0 r) = false -> follow brk r.
+Proof. intros H _ E. rewrite E in H. discriminate H. Qed.
+Lemma follow_nil : follow brk [].
+Proof. intros _ E. discriminate E. Qed.
+Lemma follow_brk r : follow brk (brk ++ r).
+Proof. intros H. rewrite (crnl_cr H). discriminate. Qed.
+Lemma follow_sps k r : follow brk r -> follow brk (sps k ++ r).
+Proof. intros H Hc. destruct k as [|k]; [exact (H Hc)|discriminate]. Qed.
+End BreakFacts.
 
 (* ========================================================================================== *)
 (* Part 1 (T1): nls and chomping arithmetic                                                     *)
@@ -186,8 +248,8 @@ Proof. reflexivity. Qed.
 
 Definition nobreak (t : list chr) : Prop := Forall (fun c => is_breakz c = false) t.
 
-Lemma nobreak_nolf t : nobreak t -> Forall (fun c => c <> 10) t.
-Proof. apply Forall_impl. intros c H ->. discriminate. Qed.
+Lemma nobreak_nolf t : nobreak t -> Forall (fun c => is_break c = false) t.
+Proof. apply Forall_impl. intros c H. exact (proj1 (orb_false_elim _ _ H)). Qed.
 
 (* the buffered-peek loop: with a non-empty look-ahead it reads the whole line *)
 Lemma cl_peek_full : forall (txt rest : list chr) f acc s lk m w,
@@ -230,13 +292,13 @@ Proof.
     cbn [rev length]. rewrite <- app_assoc. cbn [app]. do 4 f_equal. lia.
 Qed.
 
-Theorem content_line_spec : forall (txt rest : list chr) F acc s lk m w,
+Theorem content_line_spec : forall brk (txt rest : list chr) F acc s lk m w,
   nobreak txt -> is_breakz (hd0 rest) = true -> (length txt < F)%nat ->
   scan_block_scalar_content_line str_ops F acc (mv s (txt ++ rest) lk m w)
-  = Ok (rev txt ++ acc, mv s rest lk (mark_after m txt) w).
+  = Ok (rev txt ++ acc, mv s rest lk (mark_after brk m txt) w).
 Proof.
-  intros txt rest F acc s lk m w Hnb Hr Hf. rewrite content_line_eq.
-  rewrite (mark_after_nolf _ (nobreak_nolf _ Hnb)).
+  intros brk txt rest F acc s lk m w Hnb Hr Hf. rewrite content_line_eq.
+  rewrite (mark_after_nolf brk _ (nobreak_nolf _ Hnb)).
   destruct lk as [|lk].
   - (* empty look-ahead: raw fast path *)
     destruct F as [|F]; [lia|].
@@ -252,6 +314,9 @@ Ltac hd0c := match goal with |- context [hd0 (?c :: ?r)] => change (hd0 (c :: r)
 (* ========================================================================================== *)
 (* Part 3 (T3): indentation                                                                     *)
 (* ========================================================================================== *)
+Section Brk.
+Variable brk : list chr.
+Hypothesis Hbrk : break_style brk.
 
 (* [skip_spaces_to indent]: on k spaces followed by something else it consumes min k (indent - column) of them *)
 Lemma skip_spaces_to_spec : forall k (rest : list chr) f indent cb s lk m w j,
@@ -341,14 +406,20 @@ Proof.
     mstep ltac:(exact Hw). apply look_mv.
 Qed.
 
-(* blank lines: k_i spaces and a line feed each *)
-Definition blank_lines (ks : list nat) : list chr := flat_map (fun k => sps k ++ [10]) ks.
+(* blank lines: k_i spaces and a line break each *)
+Definition blank_lines (ks : list nat) : list chr := flat_map (fun k => sps k ++ brk) ks.
 
 Lemma col_nlm m : m_col (nlm m) = 0.
 Proof. reflexivity. Qed.
 
-Lemma mark_after_blank_line k m : mark_after m (sps k ++ [10]) = nlm (adv (N.of_nat k) m).
+Lemma mark_after_blank_line k m : mark_after brk m (sps k ++ brk) = mark_after brk (adv (N.of_nat k) m) brk.
 Proof. rewrite mark_after_app, mark_after_spaces. reflexivity. Qed.
+
+Lemma follow_blank_lines ks X : follow brk X -> follow brk (blank_lines ks ++ X).
+Proof.
+  intros H. destruct ks as [|k ks]; [exact H|]. cbn [blank_lines flat_map]. rewrite <- !app_assoc.
+  apply follow_sps. apply (follow_brk brk Hbrk).
+Qed.
 
 (* (T3) skip_block_scalar_indent: blank lines of at most [indent] spaces are counted, then at most [indent] spaces
    of the next line are consumed.  The next line is a content line (more than [indent] spaces, or a character
@@ -364,7 +435,7 @@ Theorem skip_block_scalar_indent_spec : forall ks k (rest : list chr) F fuel ind
   skip_block_scalar_indent str_ops F fuel indent breaks (mv s (blank_lines ks ++ sps k ++ rest) lk m true)
   = Ok (breaks + N.of_nat (length ks),
         mv s (sps (k - Nat.min k (N.to_nat indent)) ++ rest) lk'
-           (mark_after m (blank_lines ks ++ sps (Nat.min k (N.to_nat indent)))) true).
+           (mark_after brk m (blank_lines ks ++ sps (Nat.min k (N.to_nat indent)))) true).
 Proof.
   induction ks as [|k0 ks IH]; intros k rest F fuel indent breaks s lk m Hcol Hks Hr Hlast Hfuel HF.
   - destruct fuel as [|fuel]; [cbn in Hfuel; lia|]. rewrite sbsi_eq.
@@ -384,20 +455,25 @@ Proof.
     change (Nat.ltb (bufmaxlen str_ops) 2) with false. cbv iota.
     inversion Hks as [|? ? Hk0 Hks']; subst.
     inversion HF as [|? ? HkF HF']; subst. inversion HF' as [|? ? Hk0F HksF]; subst.
-    cbn [blank_lines flat_map]. fold (blank_lines ks). rewrite <- !app_assoc. cbn [app].
-    assert (Hr0 : hd0 (10 :: blank_lines ks ++ sps k ++ rest) <> 32) by (intro H; change (10 = 32) in H; discriminate).
-    destruct (sbsi_sp_spec k0 (10 :: blank_lines ks ++ sps k ++ rest) F indent s lk m true k0 Hr0 Hk0F)
+    cbn [blank_lines flat_map]. fold (blank_lines ks). rewrite <- !app_assoc.
+    set (X := blank_lines ks ++ sps k ++ rest).
+    assert (Hr0 : hd0 (brk ++ X) <> 32) by (apply (brk_not_space brk Hbrk)).
+    destruct (sbsi_sp_spec k0 (brk ++ X) F indent s lk m true k0 Hr0 Hk0F)
       as [lk1 [Hle1 [Hne1 Hsp]]]; [rewrite Hcol; lia|rewrite Hcol; lia|].
-    rewrite Nat.sub_diag in Hsp. change (sps 0 ++ 10 :: blank_lines ks ++ sps k ++ rest) with (10 :: blank_lines ks ++ sps k ++ rest) in Hsp.
-    destruct (IH k rest F fuel indent (breaks + 1) s lk1 (nlm (adv (N.of_nat k0) m))) as [lk' [Hle [Hne Hrec]]]; auto.
+    rewrite Nat.sub_diag in Hsp. change (sps 0 ++ brk ++ X) with (brk ++ X) in Hsp.
+    destruct (IH k rest F fuel indent (breaks + 1) s lk1 (mark_after brk (adv (N.of_nat k0) m) brk)) as [lk' [Hle [Hne Hrec]]]; auto.
+    { apply (col_brk brk Hbrk). }
     { cbn [length] in Hfuel. lia. }
     exists lk'. split; [lia|]. split; [exact Hne|].
-    mstep ltac:(reflexivity). mstep ltac:(exact Hsp). mstep ltac:(apply next_is_mv). hd0c.
-    change (is_break 10) with true. cbv iota.
-    mstep ltac:(apply skip_break_lf).
-    rewrite Hrec. cbn [length]. rewrite (mark_after_app m (sps k0)), mark_after_spaces.
-    change (mark_after (adv (N.of_nat k0) m) (10 :: blank_lines ks ++ sps (Nat.min k (N.to_nat indent))))
-      with (mark_after (nlm (adv (N.of_nat k0) m)) (blank_lines ks ++ sps (Nat.min k (N.to_nat indent)))).
+    assert (Hfol : follow brk X).
+    { subst X. apply follow_blank_lines. destruct (Nat.eq_dec k 0) as [->|Hk].
+      - destruct Hlast as [Hlt|Hnb]; [lia|]. apply (follow_nb brk). exact Hnb.
+      - intros _. destruct k; [congruence|discriminate]. }
+    mstep ltac:(reflexivity). mstep ltac:(exact Hsp). mstep ltac:(apply next_is_mv).
+    rewrite (brk_is_break brk Hbrk). cbv iota.
+    mstep ltac:(apply (skip_break_brk brk Hbrk); exact Hfol).
+    subst X. rewrite Hrec. cbn [length]. rewrite (mark_after_app brk m (sps k0)), mark_after_spaces.
+    rewrite (mark_after_app brk _ brk).
     do 2 f_equal. lia.
 Qed.
 
@@ -435,12 +511,12 @@ Qed.
 Definition maxl (ks : list nat) (k : nat) : nat := fold_right Nat.max k ks.
 
 Lemma col_after_blank_lines : forall ks j m, m_col m = 0 ->
-  m_col (mark_after m (blank_lines ks ++ sps j)) = N.of_nat j.
+  m_col (mark_after brk m (blank_lines ks ++ sps j)) = N.of_nat j.
 Proof.
   induction ks as [|k ks IH]; intros j m Hm.
   - cbn [blank_lines flat_map app]. rewrite mark_after_spaces. cbn [adv m_col]. lia.
   - cbn [blank_lines flat_map]. fold (blank_lines ks). rewrite <- app_assoc, mark_after_app, mark_after_blank_line.
-    apply IH. reflexivity.
+    apply IH. apply (col_brk brk Hbrk).
 Qed.
 
 Theorem skip_first_line_indent_spec : forall ks k (rest : list chr) F fuel maxi breaks s lk m,
@@ -450,7 +526,7 @@ Theorem skip_first_line_indent_spec : forall ks k (rest : list chr) F fuel maxi 
   exists lk', (lk <= lk')%nat /\ lk' <> O /\
   skip_first_line_indent str_ops F fuel maxi breaks (mv s (blank_lines ks ++ sps k ++ rest) lk m true)
   = Ok ((N.max maxi (N.of_nat (maxl ks k)), breaks + N.of_nat (length ks)),
-        mv s rest lk' (mark_after m (blank_lines ks ++ sps k)) true).
+        mv s rest lk' (mark_after brk m (blank_lines ks ++ sps k)) true).
 Proof.
   induction ks as [|k0 ks IH]; intros k rest F fuel maxi breaks s lk m Hcol Hr Hnb Hfuel HF.
   - destruct fuel as [|fuel]; [cbn in Hfuel; lia|]. rewrite sfli_eq.
@@ -462,19 +538,22 @@ Proof.
   - destruct fuel as [|fuel]; [cbn in Hfuel; lia|]. rewrite sfli_eq.
     inversion HF as [|? ? HkF HF']; subst. inversion HF' as [|? ? Hk0F HksF]; subst.
     cbn [blank_lines flat_map]. fold (blank_lines ks). rewrite <- !app_assoc.
-    change ([10] ++ blank_lines ks ++ sps k ++ rest) with (10 :: blank_lines ks ++ sps k ++ rest).
-    destruct (IH k rest F fuel (N.max maxi (N.of_nat k0)) (breaks + 1) s (Nat.max (Nat.max lk 1) 2) (nlm (adv (N.of_nat k0) m)))
+    set (X := blank_lines ks ++ sps k ++ rest).
+    destruct (IH k rest F fuel (N.max maxi (N.of_nat k0)) (breaks + 1) s (Nat.max (Nat.max lk 1) 2)
+                 (mark_after brk (adv (N.of_nat k0) m) brk))
       as [lk' [Hle [Hne Hrec]]]; auto.
+    { apply (col_brk brk Hbrk). }
     { cbn [length] in Hfuel. lia. }
     exists lk'. split; [lia|]. split; [exact Hne|].
-    mstep ltac:(apply sfl_sp_spec; [intro H; change (10 = 32) in H; discriminate|exact Hk0F]).
-    mstep ltac:(apply col_mv). mstep ltac:(apply next_is_mv). hd0c. change (is_break 10) with true. cbv iota.
-    mstep ltac:(apply look_mv). mstep ltac:(apply skip_break_lf).
-    cbn [adv m_col]. rewrite Hcol, N.add_0_l. rewrite Hrec.
+    assert (Hfol : follow brk X).
+    { subst X. apply follow_blank_lines. apply follow_sps. apply (follow_nb brk). exact Hnb. }
+    mstep ltac:(apply sfl_sp_spec; [apply (brk_not_space brk Hbrk)|exact Hk0F]).
+    mstep ltac:(apply col_mv). mstep ltac:(apply next_is_mv). rewrite (brk_is_break brk Hbrk). cbv iota.
+    mstep ltac:(apply look_mv). mstep ltac:(apply (skip_break_brk brk Hbrk); exact Hfol).
+    cbn [adv m_col]. rewrite Hcol, N.add_0_l. subst X. rewrite Hrec.
     cbn [length maxl fold_right]. fold (maxl ks k).
-    rewrite (mark_after_app m (sps k0)), mark_after_spaces.
-    change (mark_after (adv (N.of_nat k0) m) (([10] ++ blank_lines ks) ++ sps k))
-      with (mark_after (nlm (adv (N.of_nat k0) m)) (blank_lines ks ++ sps k)).
+    rewrite (mark_after_app brk m (sps k0)), mark_after_spaces.
+    rewrite (mark_after_app brk _ brk).
     do 3 f_equal; lia.
 Qed.
 
@@ -490,7 +569,7 @@ Fixpoint bs_loop (f : nat) (acc : list chr) (lb tb : N) (leading_blank : bool) :
   | S f =>
     k <- col ;; z <- next_is str_ops is_z ;;
     if negb (k =? indent) || z then ret (acc, lb, tb) else
-    de <- (if indent =? 0 then look str_ops 4 ;;; next_is_document_end str_ops else ret false) ;;
+    de <- (if indent =? 0 then look str_ops 4 ;;; next_is_document_indicator str_ops else ret false) ;;
     if de then ret (acc, lb, tb) else
     trailing_blank <- next_is str_ops is_blank ;;
     let acc :=
@@ -514,7 +593,7 @@ Definition chunk_ok (F n : nat) (c : chunk) : Prop :=
   Forall (fun k => (k <= n)%nat) ks /\ nobreak s /\ hd0 s <> 32 /\ (e <> O \/ s <> []) /\
   (* fuel *) Forall (fun k => (k < F)%nat) ks /\ (length ks < F)%nat /\ (n + e + length s < F)%nat.
 Definition chunk_text (n : nat) (c : chunk) : list chr :=
-  let '(ks, e, s) := c in blank_lines ks ++ sps (n + e) ++ s ++ [10].
+  let '(ks, e, s) := c in blank_lines ks ++ sps (n + e) ++ s ++ brk.
 Definition chunk_text_nolf (n : nat) (c : chunk) : list chr :=
   let '(ks, e, s) := c in blank_lines ks ++ sps (n + e) ++ s.
 Definition chunk_lines (c : chunk) : list bline :=
@@ -550,9 +629,12 @@ Proof. intros H Hne. destruct t as [|c t]; [congruence|]. inversion H; subst. as
 Lemma breakz_parts c : is_breakz c = false -> is_z c = false /\ is_break c = false.
 Proof. unfold is_breakz. intros H. apply orb_false_iff in H. tauto. Qed.
 
-(* the document-end test of the loop (only made when the content indentation is 0) *)
-Definition doc_end_b (cs : list chr) : bool :=
-  (nth 0 cs 0 =? 46) && (nth 1 cs 0 =? 46) && (nth 2 cs 0 =? 46) && is_blank_or_breakz (nth 3 cs 0).
+(* the document-marker test of the loop (only made when the content indentation is 0): `...` or `---` followed by a
+   blank, a break or the end of the input *)
+Definition doc_ind_b (cs : list chr) : bool :=
+  is_blank_or_breakz (nth 3 cs 0) &&
+  (((nth 0 cs 0 =? 46) && (nth 1 cs 0 =? 46) && (nth 2 cs 0 =? 46)) ||
+   ((nth 0 cs 0 =? 45) && (nth 1 cs 0 =? 45) && (nth 2 cs 0 =? 45))).
 
 Lemma assert_buflen_mv s cs lk m w n site : (n <= lk)%nat ->
   assert_buflen str_ops n site (mv s cs lk m w) = Ok (tt, mv s cs lk m w).
@@ -561,38 +643,47 @@ Proof.
   destruct (Nat.ltb_spec lk n); [lia|reflexivity].
 Qed.
 
-Lemma next_is_document_end_mv s cs lk m w : (4 <= lk)%nat ->
-  next_is_document_end str_ops (mv s cs lk m w) = Ok (doc_end_b cs, mv s cs lk m w).
+Lemma next_3_are_mv s cs lk m w a b c : (3 <= lk)%nat ->
+  next_3_are str_ops a b c (mv s cs lk m w)
+  = Ok ((nth 0 cs 0 =? a) && (nth 1 cs 0 =? b) && (nth 2 cs 0 =? c), mv s cs lk m w).
 Proof.
-  intros Hlk. unfold next_is_document_end, next_3_are, doc_end_b.
-  mstep ltac:(apply assert_buflen_mv; lia).
-  mstep ltac:(mstep ltac:(apply assert_buflen_mv; lia); mstep ltac:(apply peek_mv); mstep ltac:(apply peekn_mv);
-              mstep ltac:(apply peekn_mv); reflexivity).
-  unfold hd0.
-  destruct ((nth 0 cs 0 =? 46) && (nth 1 cs 0 =? 46) && (nth 2 cs 0 =? 46)); [|reflexivity].
+  intros Hlk. unfold next_3_are.
+  mstep ltac:(apply assert_buflen_mv; lia). mstep ltac:(apply peek_mv). mstep ltac:(apply peekn_mv).
   mstep ltac:(apply peekn_mv). reflexivity.
 Qed.
 
-(* a content line at column 0 that is not a document marker does not pass the document-end test *)
-Lemma marker_doc_end (txt X : list chr) : nobreak txt -> marker_line txt = false -> (X = [] \/ hd0 X = 10) ->
-  doc_end_b (txt ++ X) = false.
+Lemma next_is_document_indicator_mv s cs lk m w : (4 <= lk)%nat ->
+  next_is_document_indicator str_ops (mv s cs lk m w) = Ok (doc_ind_b cs, mv s cs lk m w).
 Proof.
-  intros Hnb Hm HX. unfold doc_end_b.
-  assert (HX' : (nth 0 X 0 =? 46) = false).
-  { destruct HX as [->|E]; [reflexivity|]. unfold hd0 in E. rewrite E. reflexivity. }
+  intros Hlk. unfold next_is_document_indicator, doc_ind_b.
+  mstep ltac:(apply assert_buflen_mv; lia). mstep ltac:(apply peekn_mv).
+  destruct (is_blank_or_breakz (nth 3 cs 0)); [|reflexivity]. cbn [andb].
+  mstep ltac:(apply next_3_are_mv; lia).
+  destruct ((nth 0 cs 0 =? 46) && (nth 1 cs 0 =? 46) && (nth 2 cs 0 =? 46)); [reflexivity|].
+  cbn [orb]. apply next_3_are_mv. lia.
+Qed.
+
+(* a content line at column 0 that is not a document marker does not pass the document-marker test *)
+Lemma marker_doc_ind (txt X : list chr) : nobreak txt -> marker_line txt = false -> is_breakz (hd0 X) = true ->
+  doc_ind_b (txt ++ X) = false.
+Proof.
+  intros Hnb Hm HX. unfold doc_ind_b.
+  assert (HX' : (nth 0 X 0 =? 46) = false /\ (nth 0 X 0 =? 45) = false).
+  { fold (hd0 X). destruct (N.eqb_spec (hd0 X) 46) as [E|_]; [rewrite E in HX; discriminate|].
+    destruct (N.eqb_spec (hd0 X) 45) as [E|_]; [rewrite E in HX; discriminate|]. split; reflexivity. }
+  destruct HX' as [H46 H45].
   destruct txt as [|a [|b [|c [|d r]]]]; cbn [app nth].
-  - rewrite HX'. reflexivity.
-  - rewrite HX', andb_false_r. reflexivity.
-  - rewrite HX', andb_false_r. reflexivity.
-  - cbn [marker_line] in Hm.
-    destruct ((a =? 46) && (b =? 46) && (c =? 46)) eqn:E3; [|reflexivity].
-    rewrite orb_true_r in Hm. discriminate.
+  - rewrite H46, H45. repeat (rewrite ?andb_false_r; cbn [andb orb]). reflexivity.
+  - rewrite H46, H45. repeat (rewrite ?andb_false_r; cbn [andb orb]). reflexivity.
+  - rewrite H46, H45. repeat (rewrite ?andb_false_r; cbn [andb orb]). reflexivity.
+  - cbn [marker_line] in Hm. rewrite andb_true_r in Hm. rewrite orb_comm in Hm. rewrite Hm. apply andb_false_r.
   - cbn [marker_line] in Hm. inversion Hnb as [|? ? _ H1]; subst. inversion H1 as [|? ? _ H2]; subst.
     inversion H2 as [|? ? _ H3]; subst. inversion H3 as [|? ? Hd _]; subst.
-    destruct ((a =? 46) && (b =? 46) && (c =? 46)) eqn:E3; [|reflexivity].
-    rewrite orb_true_r in Hm. cbn [andb] in Hm.
+    rewrite orb_comm in Hm.
+    destruct (((a =? 46) && (b =? 46) && (c =? 46)) || ((a =? 45) && (b =? 45) && (c =? 45))); [|apply andb_false_r].
+    cbn [andb] in Hm. rewrite andb_true_r.
     unfold is_blank_or_breakz. rewrite Hd, orb_false_r.
-    unfold is_white in Hm. unfold is_blank. cbn [andb]. exact Hm.
+    unfold is_white in Hm. unfold is_blank. exact Hm.
 Qed.
 
 (* look-ahead counter after one round *)
@@ -600,43 +691,45 @@ Definition rlk (n lk : nat) : nat := match n with O => Nat.max (Nat.max lk 4) 2 
 Lemma rlk_facts n lk : (lk <= rlk n lk)%nat /\ rlk n lk <> O.
 Proof. destruct n; cbn [rlk]; lia. Qed.
 
-(* one round of the loop at the start of a content line [txt] that is followed by a line feed *)
+(* one round of the loop at the start of a content line [txt] that is followed by a line break *)
 Lemma bs_loop_round : forall (txt R : list chr) F literal n f acc lb tb lbk s lk m w,
-  nobreak txt -> txt <> [] -> (n = O -> doc_end_b (txt ++ 10 :: R) = false) -> m_col m = N.of_nat n -> (length txt < F)%nat ->
-  bs_loop F literal (N.of_nat n) (S f) acc lb tb lbk (mv s (txt ++ 10 :: R) lk m w)
+  nobreak txt -> txt <> [] -> (n = O -> doc_ind_b (txt ++ brk ++ R) = false) -> m_col m = N.of_nat n -> (length txt < F)%nat ->
+  follow brk R ->
+  bs_loop F literal (N.of_nat n) (S f) acc lb tb lbk (mv s (txt ++ brk ++ R) lk m w)
   = (tb' <- skip_block_scalar_indent str_ops F F (N.of_nat n) 0 ;;
      bs_loop F literal (N.of_nat n) f (rev txt ++ fold_sep literal acc lb tb lbk (is_blank (hd0 txt))) 1 tb' (is_blank (hd0 txt)))
-      (mv s R (rlk n lk) (nlm (mark_after m txt)) true).
+      (mv s R (rlk n lk) (mark_after brk (mark_after brk m txt) brk) true).
 Proof.
-  intros txt R F literal n f acc lb tb lbk s lk m w Hnb Hne Hn Hcol HF.
+  intros txt R F literal n f acc lb tb lbk s lk m w Hnb Hne Hn Hcol HF Hfol.
   cbn [bs_loop].
   mstep ltac:(apply col_mv). mstep ltac:(apply next_is_mv).
   rewrite Hcol, N.eqb_refl. rewrite (hd0_app_ne txt) by exact Hne.
   destruct (breakz_parts _ (nobreak_hd0 _ Hnb Hne)) as [Hz Hb]. rewrite Hz. cbn [negb orb].
   destruct (N.eqb_spec (N.of_nat n) 0) as [E|E].
   - assert (En : n = O) by lia. subst n. cbn [rlk].
-    mstep ltac:(mstep ltac:(apply look_mv); apply next_is_document_end_mv; lia). rewrite (Hn eq_refl).
+    mstep ltac:(mstep ltac:(apply look_mv); apply next_is_document_indicator_mv; lia). rewrite (Hn eq_refl).
     mstep ltac:(apply next_is_mv). rewrite (hd0_app_ne txt) by exact Hne.
     fold (fold_sep literal acc lb tb lbk (is_blank (hd0 txt))).
-    mstep ltac:(apply content_line_spec; [exact Hnb|reflexivity|exact HF]).
-    mstep ltac:(apply look_mv). mstep ltac:(apply next_is_mv). hd0c. change (is_z 10) with false. cbv match.
-    mstep ltac:(apply skip_break_lf). reflexivity.
+    mstep ltac:(apply (content_line_spec brk); [exact Hnb|apply (brk_is_breakz brk Hbrk)|exact HF]).
+    mstep ltac:(apply look_mv). mstep ltac:(apply next_is_mv). rewrite (brk_not_z brk Hbrk). cbv match.
+    mstep ltac:(apply (skip_break_brk brk Hbrk); exact Hfol). reflexivity.
   - destruct n as [|n']; [lia|]. cbn [rlk].
     mstep ltac:(reflexivity). mstep ltac:(apply next_is_mv). rewrite (hd0_app_ne txt) by exact Hne.
     fold (fold_sep literal acc lb tb lbk (is_blank (hd0 txt))).
-    mstep ltac:(apply content_line_spec; [exact Hnb|reflexivity|exact HF]).
-    mstep ltac:(apply look_mv). mstep ltac:(apply next_is_mv). hd0c. change (is_z 10) with false. cbv match.
-    mstep ltac:(apply skip_break_lf). reflexivity.
+    mstep ltac:(apply (content_line_spec brk); [exact Hnb|apply (brk_is_breakz brk Hbrk)|exact HF]).
+    mstep ltac:(apply look_mv). mstep ltac:(apply next_is_mv). rewrite (brk_not_z brk Hbrk). cbv match.
+    mstep ltac:(apply (skip_break_brk brk Hbrk); exact Hfol). reflexivity.
 Qed.
 
 Lemma sps_add a b : sps (a + b) = sps a ++ sps b.
 Proof. unfold sps. apply repeat_app. Qed.
 
 Lemma mark_after_chunk n ks e s m :
-  mark_after m (chunk_text n (ks, e, s)) = nlm (mark_after (mark_after m (blank_lines ks ++ sps n)) (sps e ++ s)).
+  mark_after brk m (chunk_text n (ks, e, s))
+  = mark_after brk (mark_after brk (mark_after brk m (blank_lines ks ++ sps n)) (sps e ++ s)) brk.
 Proof.
   cbn [chunk_text]. rewrite sps_add.
-  replace (blank_lines ks ++ (sps n ++ sps e) ++ s ++ [10]) with ((blank_lines ks ++ sps n) ++ (sps e ++ s) ++ [10])
+  replace (blank_lines ks ++ (sps n ++ sps e) ++ s ++ brk) with ((blank_lines ks ++ sps n) ++ (sps e ++ s) ++ brk)
     by (rewrite <- !app_assoc; reflexivity).
   rewrite !mark_after_app. reflexivity.
 Qed.
@@ -653,7 +746,7 @@ Qed.
 Lemma chunk_nolf_ne F n ks e (txt : list chr) : chunk_ok F n (ks, e, txt) -> chunk_text_nolf n (ks, e, txt) <> [].
 Proof.
   intros Hc. destruct (chunk_content_facts _ _ _ _ _ Hc) as [Hne _]. cbn [chunk_text_nolf].
-  destruct ks as [|k ks]; [|cbn [blank_lines flat_map]; destruct k; discriminate].
+  destruct ks as [|k ks]; [|cbn [blank_lines flat_map]; destruct Hbrk as [->|[->| ->]]; destruct k; discriminate].
   cbn [blank_lines flat_map app]. rewrite sps_add, <- app_assoc. destruct (sps n); [exact Hne|discriminate].
 Qed.
 
@@ -669,32 +762,58 @@ Qed.
 Lemma tab_pos n ck : n <> O -> hd0 (chunk_text_nolf n ck) <> 9.
 Proof.
   intros Hn. destruct ck as [[ks e] txt]. cbn [chunk_text_nolf].
-  destruct ks as [|[|k0] ks]; [destruct n; [congruence|]| |]; intro H; cbv in H; discriminate H.
+  destruct ks as [|[|k0] ks]; [destruct n; [congruence|]| |]; try (intro H; cbv in H; discriminate H).
+  cbn [blank_lines flat_map]. change (sps 0 ++ brk) with brk. rewrite <- !app_assoc. apply (brk_not_tab brk Hbrk).
+Qed.
+
+Lemma follow_txt (txt X : list chr) : nobreak txt -> txt <> [] -> follow brk (txt ++ X).
+Proof.
+  intros Hnb Hne _ E. rewrite hd0_app_ne in E by exact Hne. pose proof (nobreak_hd0 _ Hnb Hne) as H. rewrite E in H. discriminate H.
+Qed.
+
+Lemma follow_line n e (txt X : list chr) : nobreak txt -> (e <> O \/ txt <> []) -> follow brk (sps (n + e) ++ txt ++ X).
+Proof.
+  intros Hnb Hne. destruct (n + e)%nat as [|k] eqn:E; [|intros _; discriminate].
+  change (sps 0 ++ txt ++ X) with (txt ++ X). apply follow_txt; [exact Hnb|]. destruct Hne as [He|Hs]; [lia|exact Hs].
+Qed.
+
+Lemma follow_chunk F n ck X : chunk_ok F n ck -> follow brk (chunk_text n ck ++ X).
+Proof.
+  destruct ck as [[ks e] txt]. intros [_ [Hnb [_ [Hne _]]]]. cbn [chunk_text]. rewrite <- !app_assoc.
+  apply follow_blank_lines. apply follow_line; assumption.
+Qed.
+
+Lemma follow_chunks F n chunks X : Forall (chunk_ok F n) chunks -> follow brk X -> follow brk (flat_map (chunk_text n) chunks ++ X).
+Proof.
+  intros Hch HX. destruct chunks as [|ck chunks]; [exact HX|]. cbn [flat_map]. rewrite <- app_assoc.
+  apply (follow_chunk F). exact (Forall_inv Hch).
 Qed.
 
 (* a content line at column 0 (content indentation 0, no extra indentation) must not look like a document marker *)
 Definition chunk_col0 (n : nat) (c : chunk) : Prop :=
   let '(ks, e, txt) := c in n = O -> e = O -> marker_line txt = false.
 
-Lemma doc_end_content n ks e (txt X : list chr) : nobreak txt -> chunk_col0 n (ks, e, txt) -> (X = [] \/ hd0 X = 10) ->
-  n = O -> doc_end_b ((sps e ++ txt) ++ X) = false.
+Lemma doc_end_content n ks e (txt X : list chr) : nobreak txt -> chunk_col0 n (ks, e, txt) -> is_breakz (hd0 X) = true ->
+  n = O -> doc_ind_b ((sps e ++ txt) ++ X) = false.
 Proof.
   intros Hnb Hc HX Hn. destruct e as [|e].
-  - change (sps 0 ++ txt) with txt. apply marker_doc_end; auto.
-  - reflexivity.
+  - change (sps 0 ++ txt) with txt. apply marker_doc_ind; auto.
+  - unfold doc_ind_b. change (sps (S e)) with (32 :: sps e). cbn [app nth].
+    change (32 =? 46) with false. change (32 =? 45) with false. cbn [andb orb]. apply andb_false_r.
 Qed.
 
-Lemma doc_end_hd (r : list chr) : doc_end_b r = true -> hd0 r = 46.
+Lemma doc_ind_not_z (r : list chr) : doc_ind_b r = true -> is_z (hd0 r) = false.
 Proof.
-  unfold doc_end_b, hd0. intros H. apply andb_true_iff in H. destruct H as [H _].
-  apply andb_true_iff in H. destruct H as [H _]. apply andb_true_iff in H. destruct H as [H _].
-  apply N.eqb_eq in H. exact H.
+  unfold doc_ind_b, hd0. intros H. apply andb_true_iff in H. destruct H as [_ H].
+  apply orb_true_iff in H. destruct H as [H|H];
+    (apply andb_true_iff in H; destruct H as [H _]; apply andb_true_iff in H; destruct H as [H _];
+     apply N.eqb_eq in H; rewrite H; reflexivity).
 Qed.
 
-(* how a scalar with content indentation n ends after a line break: a less indented line, or (n = 0) the end of
-   the input or a document-end marker *)
+(* how a scalar with content indentation n ends after a line break: a less indented line; the end of the input,
+   possibly inside a last line of at most n spaces; or (n = 0) a document marker `...` / `---` *)
 Definition ends_after (n j : nat) (r' : list chr) : Prop :=
-  (j < n)%nat \/ (n = O /\ j = O /\ (r' = [] \/ doc_end_b r' = true)).
+  (j < n)%nat \/ (r' = [] /\ (j <= n)%nat) \/ (n = O /\ j = O /\ doc_ind_b r' = true).
 
 (* the loop from the start of a line (after a line break) through the remaining chunks, the trailing blank lines
    and the indentation of the line that follows *)
@@ -707,36 +826,35 @@ Lemma bs_loop_chunks : forall (chunks : list chunk) (tks : list nat) (j : nat) (
   (tb <- skip_block_scalar_indent str_ops F F (N.of_nat n) 0 ;; bs_loop F literal (N.of_nat n) f acc 1 tb lbk)
     (mv s (flat_map (chunk_text n) chunks ++ blank_lines tks ++ sps j ++ r') lk m true)
   = Ok ((acc_chunks literal acc 1 lbk chunks, 1, N.of_nat (length tks)),
-        mv s r' lk' (mark_after m (flat_map (chunk_text n) chunks ++ blank_lines tks ++ sps j)) true).
+        mv s r' lk' (mark_after brk m (flat_map (chunk_text n) chunks ++ blank_lines tks ++ sps j)) true).
 Proof.
   induction chunks as [|[[ks e] txt] chunks IH];
     intros tks j r' F literal n f acc lbk s lk m Hch Hc0 Htks HtksF HtksL Hj HjF Hr Hrb Hcol Hf.
   - cbn [flat_map app acc_chunks].
-    assert (Hjn : (j <= n)%nat) by (destruct Hj as [H|[-> [-> _]]]; lia).
+    assert (Hjn : (j <= n)%nat) by (destruct Hj as [H|[[_ H]|[-> [-> _]]]]; lia).
     destruct (skip_block_scalar_indent_spec tks j r' F F (N.of_nat n) 0 s lk m) as [lk' [Hle [Hne Hs]]]; auto.
     { apply Forall_impl with (2 := Htks). intros k Hk. lia. }
     rewrite Nat2N.id in Hs.
     replace (Nat.min j n) with j in Hs by lia. rewrite Nat.sub_diag in Hs. change (sps 0 ++ r') with r' in Hs.
     destruct f as [|f]; [cbn in Hf; lia|].
-    destruct Hj as [Hj|[-> [-> Hend]]].
+    destruct Hj as [Hj|[[-> Hj]|[-> [-> Hde]]]].
     + exists lk'. split; [exact Hle|]. split; [exact Hne|].
       mstep ltac:(exact Hs). cbn [bs_loop].
       mstep ltac:(apply col_mv). mstep ltac:(apply next_is_mv).
       rewrite col_after_blank_lines by exact Hcol.
       destruct (N.eqb_spec (N.of_nat j) (N.of_nat n)) as [E|_]; [lia|]. cbn [negb orb]. rewrite N.add_0_l. reflexivity.
-    + destruct Hend as [->|Hde].
-      * exists lk'. split; [exact Hle|]. split; [exact Hne|].
-        mstep ltac:(exact Hs). cbn [bs_loop].
-        mstep ltac:(apply col_mv). mstep ltac:(apply next_is_mv).
-        change (is_z (hd0 [])) with true. rewrite orb_true_r. rewrite N.add_0_l. reflexivity.
-      * exists (Nat.max lk' 4). split; [lia|]. split; [lia|].
-        mstep ltac:(exact Hs). cbn [bs_loop].
-        mstep ltac:(apply col_mv). mstep ltac:(apply next_is_mv).
-        rewrite col_after_blank_lines by exact Hcol. change (N.of_nat 0 =? N.of_nat 0) with true.
-        rewrite (doc_end_hd _ Hde). change (is_z 46) with false. cbn [negb orb].
-        change (N.of_nat 0 =? 0) with true. cbv match.
-        mstep ltac:(mstep ltac:(apply look_mv); apply next_is_document_end_mv; lia). rewrite Hde.
-        rewrite N.add_0_l. reflexivity.
+    + exists lk'. split; [exact Hle|]. split; [exact Hne|].
+      mstep ltac:(exact Hs). cbn [bs_loop].
+      mstep ltac:(apply col_mv). mstep ltac:(apply next_is_mv).
+      change (is_z (hd0 [])) with true. rewrite orb_true_r. rewrite N.add_0_l. reflexivity.
+    + exists (Nat.max lk' 4). split; [lia|]. split; [lia|].
+      mstep ltac:(exact Hs). cbn [bs_loop].
+      mstep ltac:(apply col_mv). mstep ltac:(apply next_is_mv).
+      rewrite col_after_blank_lines by exact Hcol. change (N.of_nat 0 =? N.of_nat 0) with true.
+      rewrite (doc_ind_not_z _ Hde). cbn [negb orb].
+      change (N.of_nat 0 =? 0) with true. cbv match.
+      mstep ltac:(mstep ltac:(apply look_mv); apply next_is_document_indicator_mv; lia). rewrite Hde.
+      rewrite N.add_0_l. reflexivity.
   - pose proof (Forall_inv Hch) as Hc. pose proof (Forall_inv_tail Hch) as Hch'.
     pose proof (Forall_inv Hc0) as Hcc. pose proof (Forall_inv_tail Hc0) as Hc0'.
     destruct (chunk_content_facts _ _ _ _ _ Hc) as [Hne' [Hnbt Hlen']].
@@ -744,38 +862,42 @@ Proof.
     cbn [flat_map]. fold (flat_map (chunk_text n) chunks).
     set (REST := flat_map (chunk_text n) chunks ++ blank_lines tks ++ sps j ++ r').
     assert (Etxt : (chunk_text n (ks, e, txt) ++ flat_map (chunk_text n) chunks) ++ blank_lines tks ++ sps j ++ r'
-                   = blank_lines ks ++ sps (n + e) ++ (txt ++ 10 :: REST)).
+                   = blank_lines ks ++ sps (n + e) ++ (txt ++ brk ++ REST)).
     { cbn [chunk_text]. subst REST. rewrite <- !app_assoc. reflexivity. }
     rewrite Etxt.
-    assert (Hhd' : hd0 (txt ++ 10 :: REST) <> 32).
-    { destruct txt as [|c t]; [intro H; change (10 = 32) in H; discriminate|exact Hhd]. }
-    assert (Hlast : N.of_nat n < N.of_nat (n + e) \/ is_break (hd0 (txt ++ 10 :: REST)) = false).
+    assert (Hhd' : hd0 (txt ++ brk ++ REST) <> 32).
+    { destruct txt as [|c t]; [apply (brk_not_space brk Hbrk)|exact Hhd]. }
+    assert (Hlast : N.of_nat n < N.of_nat (n + e) \/ is_break (hd0 (txt ++ brk ++ REST)) = false).
     { destruct Hne as [He|Hs]; [left; lia|right].
       rewrite hd0_app_ne by exact Hs. exact (proj2 (breakz_parts _ (nobreak_hd0 _ Hnb Hs))). }
-    destruct (skip_block_scalar_indent_spec ks (n + e) (txt ++ 10 :: REST) F F (N.of_nat n) 0 s lk m)
+    destruct (skip_block_scalar_indent_spec ks (n + e) (txt ++ brk ++ REST) F F (N.of_nat n) 0 s lk m)
       as [lk1 [Hle1 [Hne1 Hs]]]; auto.
     { apply Forall_impl with (2 := Hks). intros k Hk. lia. }
     { constructor; [lia|exact HksF]. }
     rewrite Nat2N.id in Hs. replace (Nat.min (n + e) n) with n in Hs by lia.
     replace (n + e - n)%nat with e in Hs by lia.
     destruct f as [|f]; [cbn in Hf; lia|].
-    set (m1 := mark_after m (blank_lines ks ++ sps n)) in *.
+    set (m1 := mark_after brk m (blank_lines ks ++ sps n)) in *.
     assert (Hcol1 : m_col m1 = N.of_nat n) by (apply col_after_blank_lines; exact Hcol).
     destruct (rlk_facts n lk1) as [Hrl1 Hrl2].
     destruct (IH tks j r' F literal n f
                  (rev (sps e ++ txt) ++ fold_sep literal acc 1 (N.of_nat (length ks)) lbk (is_blank (hd0 (sps e ++ txt))))
-                 (is_blank (hd0 (sps e ++ txt))) s (rlk n lk1) (nlm (mark_after m1 (sps e ++ txt))))
+                 (is_blank (hd0 (sps e ++ txt))) s (rlk n lk1) (mark_after brk (mark_after brk m1 (sps e ++ txt)) brk))
       as [lk' [Hle [Hne2 Hrec]]]; auto.
+    { apply (col_brk brk Hbrk). }
     { cbn [length] in Hf. lia. }
     exists lk'. split; [lia|]. split; [exact Hne2|].
+    assert (Hfol : follow brk REST).
+    { subst REST. apply (follow_chunks F n); [exact Hch'|]. apply follow_blank_lines. apply follow_sps.
+      apply (follow_nb brk). exact Hrb. }
     mstep ltac:(exact Hs). rewrite N.add_0_l.
-    replace (sps e ++ txt ++ 10 :: REST) with ((sps e ++ txt) ++ 10 :: REST) by (rewrite <- app_assoc; reflexivity).
+    replace (sps e ++ txt ++ brk ++ REST) with ((sps e ++ txt) ++ brk ++ REST) by (rewrite <- app_assoc; reflexivity).
     rewrite bs_loop_round; auto.
-    2: { intros Hn0. apply (doc_end_content n ks e txt (10 :: REST)); auto. }
+    2: { intros Hn0. apply (doc_end_content n ks e txt (brk ++ REST)); auto. apply (brk_is_breakz brk Hbrk). }
     subst REST. rewrite Hrec. cbn [acc_chunks].
-    rewrite (mark_after_app m (chunk_text n (ks, e, txt) ++ flat_map (chunk_text n) chunks)).
-    rewrite (mark_after_app m (chunk_text n (ks, e, txt))), mark_after_chunk. fold m1.
-    rewrite <- mark_after_app. reflexivity.
+    rewrite (mark_after_app brk m (chunk_text n (ks, e, txt) ++ flat_map (chunk_text n) chunks)).
+    rewrite (mark_after_app brk m (chunk_text n (ks, e, txt))), mark_after_chunk. fold m1.
+    rewrite (mark_after_app brk _ (flat_map (chunk_text n) chunks)). reflexivity.
 Qed.
 
 (* ------------------------------------------------------------------------------------------ *)
@@ -863,17 +985,45 @@ Proof.
   induction ls as [|l ls IH]; [reflexivity|]. cbn [flat_map app]. rewrite <- !app_assoc. cbn [app]. rewrite IH. reflexivity.
 Qed.
 
-Lemma render_blanks n ks : flat_map (fun l => render_line n l ++ [LF]) (map Blank ks) = blank_lines ks.
-Proof. induction ks as [|k ks IH]; [reflexivity|]. cbn [map flat_map blank_lines]. rewrite IH. reflexivity. Qed.
+(* the text with every line feed replaced by the break ([with_breaks] of the specification) *)
+Definition wbrk (t : list chr) : list chr := flat_map (fun c => if c =? 10 then brk else [c]) t.
 
-Lemma render_chunks n chunks tks :
-  flat_map (fun l => render_line n l ++ [LF]) (flat_map chunk_lines chunks ++ map Blank tks)
+Lemma wbrk_app a b : wbrk (a ++ b) = wbrk a ++ wbrk b.
+Proof. apply flat_map_app. Qed.
+Lemma wbrk_nolf t : Forall (fun c => c <> 10) t -> wbrk t = t.
+Proof.
+  induction 1 as [|c r Hc Hr IH]; [reflexivity|]. unfold wbrk in *. cbn [flat_map].
+  destruct (N.eqb_spec c 10); [contradiction|]. rewrite IH. reflexivity.
+Qed.
+Lemma wbrk_lf t : wbrk (10 :: t) = brk ++ wbrk t.
+Proof. reflexivity. Qed.
+Lemma nolf_of_nb t : Forall (fun c => is_break c = false) t -> Forall (fun c => c <> 10) t.
+Proof. apply Forall_impl. intros c H ->. discriminate H. Qed.
+Lemma wbrk_sps k : wbrk (sps k) = sps k.
+Proof. apply wbrk_nolf. apply Forall_forall. intros x Hx. apply repeat_spec in Hx. subst. discriminate. Qed.
+Lemma wbrk_nobreak t : nobreak t -> wbrk t = t.
+Proof. intros H. apply wbrk_nolf, nolf_of_nb, nobreak_nolf. exact H. Qed.
+
+Lemma render_blanks n ks : wbrk (flat_map (fun l => render_line n l ++ [LF]) (map Blank ks)) = blank_lines ks.
+Proof.
+  induction ks as [|k ks IH]; [reflexivity|]. cbn [map flat_map blank_lines render_line].
+  rewrite !wbrk_app, IH. change (spaces k) with (sps k). rewrite wbrk_sps. change (wbrk [LF]) with (brk ++ []).
+  rewrite app_nil_r. reflexivity.
+Qed.
+
+Definition chunk_nb (c : chunk) : Prop := let '(ks, e, s) := c in nobreak s.
+Lemma chunk_ok_nb F n c : chunk_ok F n c -> chunk_nb c.
+Proof. destruct c as [[ks e] s]. intros [_ [H _]]. exact H. Qed.
+
+Lemma render_chunks n chunks tks : Forall chunk_nb chunks ->
+  wbrk (flat_map (fun l => render_line n l ++ [LF]) (flat_map chunk_lines chunks ++ map Blank tks))
   = flat_map (chunk_text n) chunks ++ blank_lines tks.
 Proof.
-  rewrite flat_map_app, render_blanks. f_equal.
-  induction chunks as [|[[ks e] s] chunks IH]; [reflexivity|].
-  cbn [flat_map chunk_lines chunk_text]. rewrite flat_map_app, flat_map_app, render_blanks, IH.
-  cbn [flat_map render_line]. rewrite <- !app_assoc. reflexivity.
+  intros Hnb. rewrite flat_map_app, wbrk_app, render_blanks. f_equal.
+  induction Hnb as [|[[ks e] s] chunks Hc Hcs IH]; [reflexivity|].
+  cbn [flat_map chunk_lines chunk_text]. rewrite flat_map_app, flat_map_app, !wbrk_app, render_blanks, IH.
+  cbn [flat_map render_line]. rewrite app_nil_r, !wbrk_app. change (spaces (n + e)) with (sps (n + e)).
+  rewrite wbrk_sps, (wbrk_nobreak s Hc). change (wbrk [LF]) with (brk ++ []). rewrite app_nil_r, <- !app_assoc. reflexivity.
 Qed.
 
 (* ------------------------------------------------------------------------------------------ *)
@@ -916,7 +1066,8 @@ Definition inc_of (explicit : option nat) : N := match explicit with Some d => N
 
 Lemma digit_facts d : (1 <= d <= 9)%nat ->
   let D := 48 + N.of_nat d in
-  is_digit D = true /\ (D =? 48) = false /\ (D =? 43) = false /\ (D =? 45) = false /\ D - 48 = N.of_nat d /\ (D =? 10) = false.
+  is_digit D = true /\ (D =? 48) = false /\ (D =? 43) = false /\ (D =? 45) = false /\ D - 48 = N.of_nat d /\ (D =? 10) = false /\
+  (D =? 13) = false.
 Proof.
   intros Hd D. unfold is_digit. repeat split.
   - apply andb_true_iff. split; apply N.leb_le; subst D; lia.
@@ -925,23 +1076,24 @@ Proof.
   - apply N.eqb_neq. subst D; lia.
   - subst D; lia.
   - apply N.eqb_neq. subst D; lia.
+  - apply N.eqb_neq. subst D; lia.
 Qed.
 
 Lemma bs_hd_spec : forall c explicit digit_first (rest : list chr) s lk m w start,
-  hd0 rest = 10 \/ hd0 rest = 0 \/ hd0 rest = 32 \/ hd0 rest = 9 ->
+  hd0 rest = 10 \/ hd0 rest = 13 \/ hd0 rest = 0 \/ hd0 rest = 32 \/ hd0 rest = 9 ->
   match explicit with Some d => (1 <= d <= 9)%nat | None => True end ->
   exists lk' w', (lk <= lk')%nat /\
   bs_hd (hd0 (hdr_chars c explicit digit_first ++ rest)) start (mv s (hdr_chars c explicit digit_first ++ rest) lk m w)
-  = Ok ((to_model c, inc_of explicit), mv s rest lk' (mark_after m (hdr_chars c explicit digit_first)) w').
+  = Ok ((to_model c, inc_of explicit), mv s rest lk' (mark_after brk m (hdr_chars c explicit digit_first)) w').
 Proof.
   intros c explicit digit_first rest s lk m w start Hr0 Hd.
   assert (Hr : is_digit (hd0 rest) = false /\ (hd0 rest =? 43) = false /\ (hd0 rest =? 45) = false).
-  { destruct Hr0 as [-> | [-> | [-> | ->]]]; repeat split. }
+  { destruct Hr0 as [-> | [-> | [-> | [-> | ->]]]]; repeat split. }
   destruct Hr as [Hdig [H43 H45]].
   destruct explicit as [d|].
-  - destruct (digit_facts d Hd) as [D1 [D2 [D3 [D4 [D5 D6]]]]]. cbn zeta in *.
+  - destruct (digit_facts d Hd) as [D1 [D2 [D3 [D4 [D5 [D6 D7]]]]]]. cbn zeta in *.
     destruct c, digit_first; cbn [hdr_chars app to_model inc_of]; set (D := 48 + N.of_nat d) in *; unfold bs_hd; hd0c;
-      cbn [mark_after]; rewrite ?D1, ?D2, ?D3, ?D4, ?D6; evalb;
+      cbn [mark_after]; rewrite ?D1, ?D2, ?D3, ?D4, ?D6, ?D7; evalb;
       (eexists; eexists; split; [|
         repeat (first [ mstep ltac:(apply skip_non_blank_mv); cbn [tl]
                       | mstep ltac:(apply look_mv)
@@ -965,26 +1117,8 @@ Lemma unroll_mv s cs lk m w pz inds : unroll_nb (sc_indents s) (sc_indent s) = (
   unroll_non_block_indents (mv s cs lk m w) = Ok (tt, mv (set_indent pz inds s) cs lk m w).
 Proof. intros H. unfold unroll_non_block_indents, modify. cbn [sc_indents sc_indent mv set_lws set_flags upd]. rewrite H. reflexivity. Qed.
 
-Lemma skip_ws_to_eol_lf F s (R : list chr) lk m w :
-  skip_ws_to_eol str_ops (S F) SkipYes (mv s (10 :: R) lk m w) = Ok ((false, false), mv s (10 :: R) (Nat.max lk 1) m w).
-Proof.
-  unfold skip_ws_to_eol. cbn [in_skip_ws_to_eol].
-  mstep ltac:(mstep ltac:(apply look_ch_mv); hd0c; evalb; reflexivity).
-  cbn [fst snd]. mstep ltac:(apply adv_mark_mv). rewrite adv_0. reflexivity.
-Qed.
-
 Lemma get_mv s cs lk m w : get (mv s cs lk m w) = Ok (mv s cs lk m w, mv s cs lk m w).
 Proof. reflexivity. Qed.
-
-Lemma hd0_chunks n (chunks : list chunk) X : chunks <> [] -> n <> O ->
-  hd0 (flat_map (chunk_text n) chunks ++ X) = 32 \/ hd0 (flat_map (chunk_text n) chunks ++ X) = 10.
-Proof.
-  intros Hne Hn. destruct chunks as [|[[ks e] s] chunks]; [congruence|].
-  cbn [flat_map chunk_text]. destruct ks as [|[|k0] ks].
-  - left. destruct n; [congruence|]. reflexivity.
-  - right. reflexivity.
-  - left. reflexivity.
-Qed.
 
 Definition style_of (literal : bool) : style := if literal then Literal else Folded.
 Definition yields (literal : bool) (value r' : list chr) (o : outcome (token * sc strin)) : Prop :=
@@ -1001,9 +1135,11 @@ Definition bs_finish (literal : bool) (chomp : chomping) (indent : N) (cstart : 
   z <- next_is str_ops is_z ;; k <- col ;;
   let acc := match chomp with
              | Strip => acc
-             | _ => let acc := nls lb acc in if z && (N.max indent 1 <=? k) then 10 :: acc else acc
+             | _ => let acc := nls lb acc in if (lb =? 0) && z && (N.max indent 1 <=? k) then 10 :: acc else acc
              end in
-  let acc := match chomp with Keep => nls tb acc | _ => acc end in
+  let acc := match chomp with
+             | Keep => let acc := nls tb acc in if negb (lb =? 0) && z && (0 <? k) then 10 :: acc else acc
+             | _ => acc end in
   m <- mark ;;
   ret ({| sp_start := cstart; sp_end := m |}, TScalar (if literal then Literal else Folded) (rev acc)).
 
@@ -1034,13 +1170,14 @@ Lemma in_skip_ws_to_eol_eq fuel st tab ws n :
    else ret (n, Some (tab, ws))).
 Proof. reflexivity. Qed.
 
-Lemma ws_comment_spec kont : forall (txt R : list chr) f k s lk m w,
+Lemma ws_comment_spec kont (X : list chr) : is_breakz (hd0 X) = true -> forall (txt : list chr) f k s lk m w,
   nobreak txt -> (length txt < f)%nat ->
-  ws_comment kont f k (mv s (txt ++ 10 :: R) lk m w)
-  = kont (k + N.of_nat (length txt) + 1) (mv s (10 :: R) (Nat.max lk 1) m w).
+  ws_comment kont f k (mv s (txt ++ X) lk m w)
+  = kont (k + N.of_nat (length txt) + 1) (mv s X (Nat.max lk 1) m w).
 Proof.
-  induction txt as [|c txt IH]; intros R f k s lk m w Hnb Hf; (destruct f as [|f]; [cbn in Hf; lia|]); cbn [ws_comment app].
-  - mstep ltac:(apply look_ch_mv). hd0c. change (is_breakz 10) with true. cbv match. cbn [length N.of_nat].
+  intros Hbz.
+  induction txt as [|c txt IH]; intros f k s lk m w Hnb Hf; (destruct f as [|f]; [cbn in Hf; lia|]); cbn [ws_comment app].
+  - mstep ltac:(apply look_ch_mv). rewrite Hbz. cbv match. cbn [length N.of_nat].
     rewrite N.add_0_r. reflexivity.
   - inversion Hnb as [|? ? Hc Hnb']; subst.
     mstep ltac:(apply look_ch_mv). hd0c. rewrite Hc.
@@ -1087,45 +1224,57 @@ Inductive header_tail : list chr -> Prop :=
 | ht_white wh : whites wh -> header_tail wh
 | ht_comment wh txt : whites wh -> wh <> [] -> nobreak txt -> header_tail (wh ++ 35 :: txt).
 
-Lemma header_tail_nolf hc : header_tail hc -> Forall (fun c => c <> 10) hc.
+Lemma header_tail_nolf hc : header_tail hc -> Forall (fun c => is_break c = false) hc.
 Proof.
-  assert (Hw : forall wh, whites wh -> Forall (fun c => c <> 10) wh).
-  { intros wh H. apply Forall_impl with (2 := H). intros c [-> | ->]; discriminate. }
+  assert (Hw : forall wh, whites wh -> Forall (fun c => is_break c = false) wh).
+  { intros wh H. apply Forall_impl with (2 := H). intros c [-> | ->]; reflexivity. }
   intros [wh H|wh txt H _ Hnb]; [apply Hw; exact H|].
-  apply Forall_app. split; [apply Hw; exact H|]. constructor; [discriminate|]. apply nobreak_nolf. exact Hnb.
+  apply Forall_app. split; [apply Hw; exact H|]. constructor; [reflexivity|]. apply nobreak_nolf. exact Hnb.
 Qed.
 
-Lemma skip_ws_to_eol_hc F (hc R : list chr) s lk m w :
+Lemma breakz_cases c : is_breakz c = true -> c = 10 \/ c = 13 \/ c = 0.
+Proof.
+  unfold is_breakz, is_break, is_z. intros H. apply orb_true_iff in H. destruct H as [H|H].
+  - apply orb_true_iff in H. destruct H as [H|H]; apply N.eqb_eq in H; auto.
+  - apply N.eqb_eq in H. auto.
+Qed.
+
+(* the header tail is followed by [X]: a line break, or the end of the input *)
+Lemma skip_ws_to_eol_hc F (hc X : list chr) s lk m w :
+  is_breakz (hd0 X) = true ->
   header_tail hc -> (2 * length hc + 2 < F)%nat ->
   exists tw lk', (lk <= lk')%nat /\
-  skip_ws_to_eol str_ops F SkipYes (mv s (hc ++ 10 :: R) lk m w) = Ok (tw, mv s (10 :: R) lk' (mark_after m hc) w).
+  skip_ws_to_eol str_ops F SkipYes (mv s (hc ++ X) lk m w) = Ok (tw, mv s X lk' (mark_after brk m hc) w).
 Proof.
-  intros Hhc HF. rewrite (mark_after_nolf _ (header_tail_nolf _ Hhc)). unfold skip_ws_to_eol.
+  intros Hbz Hhc HF. rewrite (mark_after_nolf brk _ (header_tail_nolf _ Hhc)). unfold skip_ws_to_eol.
+  assert (Hbf : (hd0 X =? 32) = false /\ (hd0 X =? 9) = false /\ (hd0 X =? 35) = false)
+    by (destruct (breakz_cases _ Hbz) as [-> | [-> | ->]]; repeat split).
+  destruct Hbf as [H32 [H9 H35]].
   destruct Hhc as [wh Hwh|wh txt Hwh Hne Hnb].
   - replace F with (length wh + (F - length wh))%nat by lia.
-    destruct (ws_whites wh (10 :: R) (F - length wh) false false 0 s lk m w Hwh) as [tab' [ws' [_ [_ H3]]]]; [lia|].
+    destruct (ws_whites wh X (F - length wh) false false 0 s lk m w Hwh) as [tab' [ws' [_ [_ H3]]]]; [lia|].
     set (lkw := match wh with [] => lk | _ :: _ => Nat.max lk 1 end) in *.
     exists (tab', ws'), (Nat.max lkw 1). split; [subst lkw; destruct wh; lia|].
     destruct (F - length wh)%nat as [|f] eqn:E; [lia|].
-    assert (Hrun : in_skip_ws_to_eol str_ops (S f) SkipYes tab' ws' (0 + N.of_nat (length wh)) (mv s (10 :: R) lkw m w)
-                   = Ok ((0 + N.of_nat (length wh), Some (tab', ws')), mv s (10 :: R) (Nat.max lkw 1) m w)).
-    { rewrite in_skip_ws_to_eol_eq. mstep ltac:(apply look_ch_mv). hd0c. evalb. reflexivity. }
+    assert (Hrun : in_skip_ws_to_eol str_ops (S f) SkipYes tab' ws' (0 + N.of_nat (length wh)) (mv s X lkw m w)
+                   = Ok ((0 + N.of_nat (length wh), Some (tab', ws')), mv s X (Nat.max lkw 1) m w)).
+    { rewrite in_skip_ws_to_eol_eq. mstep ltac:(apply look_ch_mv). rewrite H32, H9, H35. reflexivity. }
     mstep ltac:(exact (eq_trans H3 Hrun)).
     cbn [fst snd]. mstep ltac:(apply adv_mark_mv). rewrite N.add_0_l. reflexivity.
   - rewrite <- app_assoc. cbn [app]. rewrite app_length in HF. cbn [length] in HF.
     replace F with (length wh + (F - length wh))%nat by lia.
-    destruct (ws_whites wh (35 :: txt ++ 10 :: R) (F - length wh) false false 0 s lk m w Hwh) as [tab' [ws' [H1 [_ H3]]]]; [lia|].
+    destruct (ws_whites wh (35 :: txt ++ X) (F - length wh) false false 0 s lk m w Hwh) as [tab' [ws' [H1 [_ H3]]]]; [lia|].
     specialize (H1 Hne).
     assert (Hflags : negb tab' && negb ws' = false) by (destruct tab', ws'; try reflexivity; discriminate).
     set (lkw := match wh with [] => lk | _ :: _ => Nat.max lk 1 end) in *.
     exists (tab', ws'), (Nat.max (Nat.max lkw 1) 1). split; [subst lkw; destruct wh; lia|].
     destruct (F - length wh)%nat as [|[|f]] eqn:E; [lia|lia|].
-    assert (Hrun : in_skip_ws_to_eol str_ops (S (S f)) SkipYes tab' ws' (0 + N.of_nat (length wh)) (mv s (35 :: txt ++ 10 :: R) lkw m w)
+    assert (Hrun : in_skip_ws_to_eol str_ops (S (S f)) SkipYes tab' ws' (0 + N.of_nat (length wh)) (mv s (35 :: txt ++ X) lkw m w)
                    = Ok ((0 + N.of_nat (length wh) + N.of_nat (length txt) + 1, Some (tab', ws')),
-                         mv s (10 :: R) (Nat.max (Nat.max lkw 1) 1) m w)).
+                         mv s X (Nat.max (Nat.max lkw 1) 1) m w)).
     { rewrite in_skip_ws_to_eol_eq. mstep ltac:(apply look_ch_mv). hd0c. evalb. rewrite Hflags.
-      mstep ltac:(apply in_skip_mv). cbn [tl]. rewrite ws_comment_spec by (auto; lia).
-      rewrite in_skip_ws_to_eol_eq. mstep ltac:(apply look_ch_mv). hd0c. evalb.
+      mstep ltac:(apply in_skip_mv). cbn [tl]. rewrite (ws_comment_spec _ X Hbz) by (auto; lia).
+      rewrite in_skip_ws_to_eol_eq. mstep ltac:(apply look_ch_mv). rewrite H32, H9, H35.
       replace (Nat.max (Nat.max (Nat.max lkw 1) 1) 1) with (Nat.max (Nat.max lkw 1) 1) by lia. reflexivity. }
     mstep ltac:(exact (eq_trans H3 Hrun)).
     cbn [fst snd]. mstep ltac:(apply adv_mark_mv). rewrite app_length. cbn [length].
@@ -1133,14 +1282,16 @@ Proof.
     reflexivity.
 Qed.
 
-Lemma header_tail_hd (hc B : list chr) : header_tail hc ->
-  hd0 (hc ++ 10 :: B) = 10 \/ hd0 (hc ++ 10 :: B) = 0 \/ hd0 (hc ++ 10 :: B) = 32 \/ hd0 (hc ++ 10 :: B) = 9.
+Lemma header_tail_hd (hc X : list chr) : is_breakz (hd0 X) = true -> header_tail hc ->
+  hd0 (hc ++ X) = 10 \/ hd0 (hc ++ X) = 13 \/ hd0 (hc ++ X) = 0 \/ hd0 (hc ++ X) = 32 \/ hd0 (hc ++ X) = 9.
 Proof.
-  assert (Hw : forall wh X, whites wh -> wh <> [] -> hd0 (wh ++ X) = 32 \/ hd0 (wh ++ X) = 9).
-  { intros wh X H Hne. destruct wh as [|c wh]; [congruence|]. inversion H as [|? ? Hc _]; subst. exact Hc. }
+  intros Hbz.
+  assert (Hw : forall wh Y, whites wh -> wh <> [] -> hd0 (wh ++ Y) = 32 \/ hd0 (wh ++ Y) = 9).
+  { intros wh Y H Hne. destruct wh as [|c wh]; [congruence|]. inversion H as [|? ? Hc _]; subst. exact Hc. }
   intros [wh H|wh txt H Hne _].
-  - destruct wh as [|c wh]; [left; reflexivity|]. right; right. apply Hw; [exact H|discriminate].
-  - right; right. rewrite <- app_assoc. apply Hw; assumption.
+  - destruct wh as [|c wh]; [cbn [app]; destruct (breakz_cases _ Hbz) as [E|[E|E]]; rewrite E; auto|].
+    right; right; right. apply Hw; [exact H|discriminate].
+  - right; right; right. rewrite <- app_assoc. apply Hw; assumption.
 Qed.
 
 (* scan_block_scalar from the first line after the header on, named ([start]: the mark of the indicator) *)
@@ -1179,25 +1330,32 @@ Definition bs_main (F : nat) (literal : bool) (start : marker) (chomp : chomping
   r <- bs_loop F literal indent F [] 0 tbreaks false ;;
   bs_finish literal chomp indent (sc_mark s) r.
 
-Lemma hdr_line c explicit digit_first m : m_line (mark_after m (hdr_chars c explicit digit_first)) = m_line m.
+Lemma hdr_chars_nb c explicit digit_first : Forall (fun x => is_break x = false) (hdr_chars c explicit digit_first).
 Proof.
-  assert (HD : forall d, (48 + N.of_nat d =? 10) = false) by (intros d; apply N.eqb_neq; lia).
-  destruct c, explicit as [d|], digit_first; cbn [hdr_chars app mark_after]; rewrite ?HD; reflexivity.
+  assert (HD : forall d, is_break (48 + N.of_nat d) = false).
+  { intros d. unfold is_break. destruct (N.eqb_spec (48 + N.of_nat d) 10); [lia|].
+    destruct (N.eqb_spec (48 + N.of_nat d) 13); [lia|]. reflexivity. }
+  destruct c, explicit as [d|], digit_first; cbn [hdr_chars app]; repeat constructor; apply HD.
 Qed.
 
-(* the header line: indicators, white space / comment, then the line feed.  What remains is [bs_main] at the start
-   of the next line. *)
-Lemma scan_header : forall (P : outcome (token * sc strin) -> Prop) (s : sc strin) F literal c (explicit : option nat)
-    (digit_first : bool) (hc BODY : list chr) pz inds,
-  si_chars (sc_in s) = header literal c explicit digit_first ++ hc ++ 10 :: BODY ->
+Lemma hdr_line c explicit digit_first m : m_line (mark_after brk m (hdr_chars c explicit digit_first)) = m_line m.
+Proof. rewrite (mark_after_nolf brk _ (hdr_chars_nb c explicit digit_first)). reflexivity. Qed.
+
+(* the indicators and the rest of the header line, up to the line break or the end of the input [X] *)
+Lemma scan_header_line : forall (P : outcome (token * sc strin) -> Prop) (s : sc strin) F literal c (explicit : option nat)
+    (digit_first : bool) (hc X : list chr) pz inds,
+  si_chars (sc_in s) = header literal c explicit digit_first ++ hc ++ X ->
   unroll_nb (sc_indents s) (sc_indent s) = (pz, inds) ->
-  header_tail hc -> (2 * length hc + 2 < F)%nat -> hd0 BODY <> 9 ->
+  header_tail hc -> (2 * length hc + 2 < F)%nat -> is_breakz (hd0 X) = true ->
   match explicit with Some d => (1 <= d <= 9)%nat | None => True end ->
-  (forall lk1 mh, lk1 <> O -> m_col mh = 0 -> m_line mh = m_line (sc_mark s) + 1 ->
-     P (bs_main F literal (sc_mark s) (to_model c) (inc_of explicit) (mv (set_indent pz inds s) BODY lk1 mh true))) ->
+  (forall lk1 mh w1, lk1 <> O -> m_line mh = m_line (sc_mark s) ->
+     P ((cbreak <- (if is_break (hd0 X) then look str_ops 2 ;;; skip_break str_ops ;;; ret 1 else ret 0) ;;
+         c0 <- look_ch str_ops ;;
+         if c0 =? 9 then fail 82 (sc_mark s) else bs_main F literal (sc_mark s) (to_model c) (inc_of explicit))
+          (mv (set_indent pz inds s) X lk1 mh w1))) ->
   P (scan_block_scalar str_ops F literal s).
 Proof.
-  intros P s F literal c explicit digit_first hc BODY pz inds Hchars Hun Hhc HF0 Htab Hd Hk.
+  intros P s F literal c explicit digit_first hc X pz inds Hchars Hun Hhc HF0 Hbz Hd Hk.
   rewrite <- (mv_self s). rewrite Hchars. clear Hchars.
   rewrite header_hdr_chars. cbn [app].
   set (lk0 := si_look (sc_in s)). set (m0 := sc_mark s). set (w0 := sc_lws s).
@@ -1206,19 +1364,40 @@ Proof.
   pstep ltac:(apply unroll_mv; exact Hun).
   pstep ltac:(apply look_ch_mv).
   set (s1 := set_indent pz inds s).
-  pose proof (header_tail_hd hc BODY Hhc) as HB.
-  destruct (bs_hd_spec c explicit digit_first (hc ++ 10 :: BODY) s1 (Nat.max lk0 1) (adv 1 m0) false m0 HB Hd) as [lk1 [w1 [Hle1 Hhd]]].
-  match goal with |- P (bind ?blk ?k ?st) => change (P (bind (bs_hd (hd0 (hdr_chars c explicit digit_first ++ hc ++ 10 :: BODY)) m0) k st)) end.
+  pose proof (header_tail_hd hc X Hbz Hhc) as HB.
+  destruct (bs_hd_spec c explicit digit_first (hc ++ X) s1 (Nat.max lk0 1) (adv 1 m0) false m0 HB Hd) as [lk1 [w1 [Hle1 Hhd]]].
+  match goal with |- P (bind ?blk ?k ?st) => change (P (bind (bs_hd (hd0 (hdr_chars c explicit digit_first ++ hc ++ X)) m0) k st)) end.
   pstep ltac:(exact Hhd).
-  destruct (skip_ws_to_eol_hc F hc BODY s1 lk1 (mark_after (adv 1 m0) (hdr_chars c explicit digit_first)) w1 Hhc HF0)
+  destruct (skip_ws_to_eol_hc F hc X s1 lk1 (mark_after brk (adv 1 m0) (hdr_chars c explicit digit_first)) w1 Hbz Hhc HF0)
     as [tw [lk2 [Hle2 Hws]]].
-  pstep ltac:(exact Hws). pstep ltac:(apply look_mv). pstep ltac:(apply peek_mv). hd0c.
-  change (is_breakz 10) with true. change (is_break 10) with true. cbv match. cbn [negb].
-  pstep ltac:(mstep ltac:(apply look_mv); mstep ltac:(apply skip_break_lf); reflexivity).
+  pstep ltac:(exact Hws). pstep ltac:(apply look_mv). pstep ltac:(apply peek_mv).
+  rewrite Hbz. cbv match. cbn [negb].
+  apply Hk; [lia|].
+  rewrite (mark_after_nolf brk _ (header_tail_nolf _ Hhc)). cbn [adv m_line]. rewrite hdr_line. reflexivity.
+Qed.
+
+(* the header line: indicators, white space / comment, then the line break.  What remains is [bs_main] at the start
+   of the next line. *)
+Lemma scan_header : forall (P : outcome (token * sc strin) -> Prop) (s : sc strin) F literal c (explicit : option nat)
+    (digit_first : bool) (hc BODY : list chr) pz inds,
+  si_chars (sc_in s) = header literal c explicit digit_first ++ hc ++ brk ++ BODY ->
+  unroll_nb (sc_indents s) (sc_indent s) = (pz, inds) ->
+  header_tail hc -> (2 * length hc + 2 < F)%nat -> hd0 BODY <> 9 -> follow brk BODY ->
+  match explicit with Some d => (1 <= d <= 9)%nat | None => True end ->
+  (forall lk1 mh, lk1 <> O -> m_col mh = 0 -> m_line mh = m_line (sc_mark s) + 1 ->
+     P (bs_main F literal (sc_mark s) (to_model c) (inc_of explicit) (mv (set_indent pz inds s) BODY lk1 mh true))) ->
+  P (scan_block_scalar str_ops F literal s).
+Proof.
+  intros P s F literal c explicit digit_first hc BODY pz inds Hchars Hun Hhc HF0 Htab Hfol Hd Hk.
+  apply (scan_header_line P s F literal c explicit digit_first hc (brk ++ BODY) pz inds); auto.
+  { apply (brk_is_breakz brk Hbrk). }
+  intros lk1 mh w1 Hlk1 Hline.
+  rewrite (brk_is_break brk Hbrk).
+  pstep ltac:(mstep ltac:(apply look_mv); mstep ltac:(apply (skip_break_brk brk Hbrk); exact Hfol); reflexivity).
   pstep ltac:(apply look_ch_mv).
   destruct (N.eqb_spec (hd0 BODY) 9) as [E|_]; [contradiction|].
-  apply Hk; [lia|reflexivity|].
-  cbn [nlm m_line]. rewrite (mark_after_nolf _ (header_tail_nolf _ Hhc)). cbn [adv m_line]. rewrite hdr_line. reflexivity.
+  apply Hk; [lia|apply (col_brk brk Hbrk)|].
+  rewrite (line_brk brk Hbrk). rewrite Hline. reflexivity.
 Qed.
 
 (* From the indicator to the first content line: header, header line break, leading blank lines, indentation
@@ -1226,11 +1405,11 @@ Qed.
    [TAIL] is what follows the first content line: nothing, or a line feed and more. *)
 Lemma scan_to_loop : forall (P : outcome (token * sc strin) -> Prop) (s : sc strin) F literal c (explicit : option nat)
     (digit_first : bool) (hc : list chr) (ks1 : list nat) (e1 : nat) (txt1 TAIL : list chr) (n : nat) pz inds,
-  si_chars (sc_in s) = header literal c explicit digit_first ++ hc ++ 10 :: blank_lines ks1 ++ sps (n + e1) ++ txt1 ++ TAIL ->
+  si_chars (sc_in s) = header literal c explicit digit_first ++ hc ++ brk ++ blank_lines ks1 ++ sps (n + e1) ++ txt1 ++ TAIL ->
   unroll_nb (sc_indents s) (sc_indent s) = (pz, inds) ->
   header_tail hc -> (2 * length hc + 2 < F)%nat ->
   hd0 (blank_lines ks1 ++ sps (n + e1) ++ txt1 ++ TAIL) <> 9 ->
-  chunk_ok F n (ks1, e1, txt1) -> (TAIL = [] \/ hd0 TAIL = 10) ->
+  chunk_ok F n (ks1, e1, txt1) -> is_breakz (hd0 TAIL) = true ->
   match explicit with
   | Some d => (1 <= d <= 9)%nat /\ N.of_nat n = (if (0 <=? pz)%Z then Z.to_N (pz + Z.of_N (N.of_nat d)) else N.of_nat d)
   | None => Z.to_N (pz + 1) <= N.of_nat n /\ e1 = O /\ txt1 <> []
@@ -1243,18 +1422,18 @@ Proof.
   intros P s F literal c explicit digit_first hc ks1 e1 txt1 TAIL n pz inds Hchars Hun Hhc HFhc Hn Hc1 HT Hind Hk.
   destruct Hc1 as [Hks1 [Hnb1 [Hhd1 [Hne1 [Hks1F [Hks1L Hlen1]]]]]].
   apply (scan_header P s F literal c explicit digit_first hc (blank_lines ks1 ++ sps (n + e1) ++ txt1 ++ TAIL) pz inds); auto.
+  { apply follow_blank_lines. apply follow_line; assumption. }
   { destruct explicit; tauto. }
   intros lk1 mh Hlk1 Hmh Hline.
   set (s1 := set_indent pz inds s).
   assert (Hs1 : forall cs lk m w, sc_indent (mv s1 cs lk m w) = pz) by reflexivity.
   unfold bs_main. pstep ltac:(apply get_mv). rewrite !Hs1.
   assert (Hhd' : hd0 (txt1 ++ TAIL) <> 32).
-  { destruct txt1 as [|c0 t]; [|exact Hhd1]. cbn [app].
-    destruct HT as [->|E]; [intro H; cbv in H; discriminate H|rewrite E; discriminate]. }
+  { destruct txt1 as [|c0 t]; [|exact Hhd1]. cbn [app]. intro E. rewrite E in HT. discriminate HT. }
   match goal with |- P (bind ?ib ?k ?st) =>
     assert (Hib : exists lk2, lk2 <> O /\
               ib st = Ok ((N.of_nat n, N.of_nat (length ks1)),
-                          mv s1 ((sps e1 ++ txt1) ++ TAIL) lk2 (mark_after mh (blank_lines ks1 ++ sps n)) true))
+                          mv s1 ((sps e1 ++ txt1) ++ TAIL) lk2 (mark_after brk mh (blank_lines ks1 ++ sps n)) true))
   end.
   { destruct explicit as [d|]; cbn [inc_of].
     - destruct Hind as [Hd9 Hind].
@@ -1290,7 +1469,7 @@ Proof.
   destruct Hib as [lk2 [Hne2 Hib]].
   pstep ltac:(exact Hib).
   assert (Hmk : forall cs lk m w, sc_mark (mv s1 cs lk m w) = m) by reflexivity.
-  set (m2 := mark_after mh (blank_lines ks1 ++ sps n)).
+  set (m2 := mark_after brk mh (blank_lines ks1 ++ sps n)).
   assert (Hcol2 : m_col m2 = N.of_nat n) by (apply col_after_blank_lines; exact Hmh).
   assert (Hne' : sps e1 ++ txt1 <> []).
   { destruct Hne1 as [He|Hs']; [destruct e1; [congruence|discriminate]|destruct e1; [exact Hs'|discriminate]]. }
@@ -1304,64 +1483,109 @@ Qed.
 
 
 
-(* every line terminated by a line feed, then a less indented line (or the end of the input) *)
+(* the header and its comment contain no line feed *)
+Lemma wbrk_head literal c explicit digit_first hc X : header_tail hc ->
+  wbrk (header literal c explicit digit_first ++ hc ++ X) = header literal c explicit digit_first ++ hc ++ wbrk X.
+Proof.
+  intros Hhc. rewrite !wbrk_app. f_equal; [|f_equal].
+  - rewrite header_hdr_chars. apply wbrk_nolf. constructor; [destruct literal; discriminate|].
+    apply nolf_of_nb. apply hdr_chars_nb.
+  - apply wbrk_nolf, nolf_of_nb, header_tail_nolf. exact Hhc.
+Qed.
+
+Lemma render_block_rest n literal c explicit digit_first hc chunks tks : header_tail hc -> Forall chunk_nb chunks ->
+  wbrk (render_block n literal c explicit digit_first hc (flat_map chunk_lines chunks ++ map Blank tks) (EofRest []))
+  = header literal c explicit digit_first ++ hc ++ brk ++ flat_map (chunk_text n) chunks ++ blank_lines tks.
+Proof.
+  intros Hhc Hnb. unfold render_block. rewrite flat_map_shift, wbrk_head by exact Hhc.
+  rewrite wbrk_lf, app_nil_r, render_chunks by exact Hnb. reflexivity.
+Qed.
+
+(* the last line of the input when the input ends inside it: j >= 1 spaces and nothing else — one more empty line
+   (reading R1 of the specification: the end of the input terminates a line like a line break does) *)
+Definition eof_blank (j : nat) (r' : list chr) : list nat :=
+  match r' with [] => (match j with O => [] | S _ => [j] end) | _ => [] end.
+
+(* every line terminated by a line feed, then a less indented line, a document marker, or the end of the input —
+   possibly inside a last line of at most n spaces *)
 Theorem block_scalar_chunks : forall (s : sc strin) F literal c (explicit : option nat) (digit_first : bool) (hc : list chr)
     (ck : chunk) (chunks : list chunk) (tks : list nat) (j : nat) (r' : list chr) (n : nat) pz inds,
   let lines := flat_map chunk_lines (ck :: chunks) ++ map Blank tks in
-  si_chars (sc_in s) = render_block n literal c explicit digit_first hc lines (EofRest (sps j ++ r')) ->
+  si_chars (sc_in s) = wbrk (render_block n literal c explicit digit_first hc lines (EofRest [])) ++ sps j ++ r' ->
   unroll_nb (sc_indents s) (sc_indent s) = (pz, inds) ->
   header_tail hc -> (2 * length hc + 2 < F)%nat ->
   hd0 (chunk_text_nolf n ck) <> 9 -> Forall (chunk_ok F n) (ck :: chunks) -> Forall (chunk_col0 n) (ck :: chunks) ->
   Forall (fun k => (k <= n)%nat) tks -> Forall (fun k => (k < F)%nat) tks -> (length tks < F)%nat ->
-  ends_after n j r' -> hd0 r' <> 32 -> is_break (hd0 r') = false -> (S (length chunks) < F)%nat ->
+  ends_after n j r' -> hd0 r' <> 32 -> is_break (hd0 r') = false -> (r' <> [] -> hd0 r' <> 0) ->
+  (S (length chunks) < F)%nat ->
   match explicit with
   | Some d => (1 <= d <= 9)%nat /\ N.of_nat n = (if (0 <=? pz)%Z then Z.to_N (pz + Z.of_N (N.of_nat d)) else N.of_nat d)
   | None => Z.to_N (pz + 1) <= N.of_nat n /\ (let '(ks, e, txt) := ck in e = O /\ txt <> [])
   end ->
-  yields literal (block_value literal c lines) r' (scan_block_scalar str_ops F literal s).
+  yields literal (block_value literal c (lines ++ map Blank (eof_blank j r'))) r' (scan_block_scalar str_ops F literal s).
 Proof.
-  intros s F literal c explicit digit_first hc ck chunks tks j r' n pz inds lines Hchars Hun Hhc HFhc Htab Hch Hc0 Htks HtksF HtksL Hj Hr Hrb HchL Hind.
+  intros s F literal c explicit digit_first hc ck chunks tks j r' n pz inds lines Hchars Hun Hhc HFhc Htab Hch Hc0 Htks HtksF HtksL Hj Hr Hrb Hrz HchL Hind.
   destruct ck as [[ks1 e1] txt1].
   pose proof (Forall_inv Hch) as Hc1. pose proof (Forall_inv_tail Hch) as Hch'.
   pose proof (Forall_inv Hc0) as Hcc1. pose proof (Forall_inv_tail Hc0) as Hc0'.
   set (REST := flat_map (chunk_text n) chunks ++ blank_lines tks ++ sps j ++ r').
-  apply (scan_to_loop _ s F literal c explicit digit_first hc ks1 e1 txt1 (10 :: REST) n pz inds); auto.
-  { rewrite Hchars. unfold render_block. cbn [app]. unfold lines. rewrite flat_map_shift, render_chunks.
+  assert (Hnbs : Forall chunk_nb ((ks1, e1, txt1) :: chunks)).
+  { apply Forall_impl with (2 := Hch). intros a Ha. exact (chunk_ok_nb F n a Ha). }
+  apply (scan_to_loop _ s F literal c explicit digit_first hc ks1 e1 txt1 (brk ++ REST) n pz inds); auto.
+  { rewrite Hchars. unfold lines. rewrite render_block_rest by assumption.
     subst REST. cbn [flat_map chunk_text]. rewrite <- !app_assoc. reflexivity. }
   { apply (tab_tail F); assumption. }
+  { apply (brk_is_breakz brk Hbrk). }
   intros s1 lk2 m2 Hne2 Hcol2.
   destruct (chunk_content_facts _ _ _ _ _ Hc1) as [Hne' [Hnbt Hlen]].
   assert (HnF : (n < F)%nat) by (destruct Hc1 as [_ [_ [_ [_ [_ [_ Hl]]]]]]; lia).
-  assert (HjF : (j < F)%nat) by (destruct Hj as [H|[_ [-> _]]]; lia).
-  assert (Hjm : (j < Nat.max n 1)%nat) by (destruct Hj as [H|[_ [-> _]]]; lia).
+  assert (HjF : (j < F)%nat) by (destruct Hj as [H|[[_ H]|[_ [-> _]]]]; lia).
+  assert (Hfol : follow brk REST).
+  { subst REST. apply (follow_chunks F n); [exact Hch'|]. apply follow_blank_lines. apply follow_sps.
+    apply (follow_nb brk). exact Hrb. }
   assert (HF : exists F', F = S F') by (destruct F; [lia|eexists; reflexivity]).
   destruct HF as [F' HF].
   replace (bs_loop F literal (N.of_nat n) F) with (bs_loop F literal (N.of_nat n) (S F')) by (rewrite HF; reflexivity).
   destruct (rlk_facts n lk2) as [Hrl1 Hrl2].
   destruct (bs_loop_chunks chunks tks j r' F literal n F'
               (rev (sps e1 ++ txt1) ++ fold_sep literal [] 0 (N.of_nat (length ks1)) false (is_blank (hd0 (sps e1 ++ txt1))))
-              (is_blank (hd0 (sps e1 ++ txt1))) s1 (rlk n lk2) (nlm (mark_after m2 (sps e1 ++ txt1))))
+              (is_blank (hd0 (sps e1 ++ txt1))) s1 (rlk n lk2) (mark_after brk (mark_after brk m2 (sps e1 ++ txt1)) brk))
     as [lk3 [Hle3 [Hne3 Hloop]]]; auto; try lia.
-  assert (Hde : n = O -> doc_end_b ((sps e1 ++ txt1) ++ 10 :: REST) = false).
-  { intros Hn0. apply (doc_end_content n ks1 e1 txt1 (10 :: REST)); auto. destruct Hc1 as [_ [Hnb _]]. exact Hnb. }
-  pstep ltac:(rewrite bs_loop_round; [exact Hloop|exact Hnbt|exact Hne'|exact Hde|exact Hcol2|exact Hlen]).
+  { apply (col_brk brk Hbrk). }
+  assert (Hde : n = O -> doc_ind_b ((sps e1 ++ txt1) ++ brk ++ REST) = false).
+  { intros Hn0. apply (doc_end_content n ks1 e1 txt1 (brk ++ REST)); auto.
+    - destruct Hc1 as [_ [Hnb _]]. exact Hnb.
+    - apply (brk_is_breakz brk Hbrk). }
+  pstep ltac:(rewrite bs_loop_round; [exact Hloop|exact Hnbt|exact Hne'|exact Hde|exact Hcol2|exact Hlen|exact Hfol]).
   unfold bs_finish.
   pstep ltac:(apply next_is_mv). pstep ltac:(apply col_mv). pstep ltac:(apply mark_mv).
   assert (Hcolend : forall m, m_col m = 0 ->
-            m_col (mark_after m (flat_map (chunk_text n) chunks ++ blank_lines tks ++ sps j)) = N.of_nat j).
-  { clear. induction chunks as [|[[ks e] txt] chunks IH]; intros m Hm.
+            m_col (mark_after brk m (flat_map (chunk_text n) chunks ++ blank_lines tks ++ sps j)) = N.of_nat j).
+  { clear - Hbrk. induction chunks as [|[[ks e] txt] chunks IH]; intros m Hm.
     - cbn [flat_map app]. apply col_after_blank_lines. exact Hm.
-    - cbn [flat_map]. rewrite <- app_assoc, mark_after_app, mark_after_chunk. apply IH. reflexivity. }
-  rewrite Hcolend by reflexivity.
-  destruct (N.leb_spec (N.max (N.of_nat n) 1) (N.of_nat j)) as [Hbad|_]; [lia|]. rewrite andb_false_r.
-  assert (Eval : block_value literal c lines =
-                 rev (match to_model c with Keep => nls (N.of_nat (length tks)) | _ => fun a => a end
+    - cbn [flat_map]. rewrite <- app_assoc, mark_after_app, mark_after_chunk. apply IH. apply (col_brk brk Hbrk). }
+  rewrite Hcolend by (apply (col_brk brk Hbrk)).
+  change (1 =? 0) with false. cbn [andb negb].
+  (* the tail: with lb = 1 clip adds nothing; keep adds one line feed for a last line of spaces ended by the input *)
+  set (tks' := tks ++ eof_blank j r').
+  assert (Etail : forall A : list chr,
+                    (if is_z (hd0 r') && (0 <? N.of_nat j) then 10 :: nls (N.of_nat (length tks)) A else nls (N.of_nat (length tks)) A)
+                    = nls (N.of_nat (length tks')) A).
+  { intros A. subst tks'. unfold eof_blank. destruct r' as [|c0 r0].
+    - change (is_z (hd0 [])) with true. destruct j as [|j'].
+      + rewrite app_nil_r. reflexivity.
+      + destruct (N.ltb_spec 0 (N.of_nat (S j'))) as [_|Hbad]; [|lia]. cbn [andb].
+        rewrite app_length. cbn [length]. rewrite Nat.add_1_r, Nat2N.inj_succ, nls_succ. reflexivity.
+    - assert (Hz : is_z (hd0 (c0 :: r0)) = false) by (apply N.eqb_neq; apply Hrz; discriminate).
+      rewrite Hz, app_nil_r. reflexivity. }
+  assert (Eval : block_value literal c (lines ++ map Blank (eof_blank j r')) =
+                 rev (match to_model c with Keep => nls (N.of_nat (length tks')) | _ => fun a => a end
                         (match to_model c with
                          | Strip => acc_chunks literal [] 0 false ((ks1, e1, txt1) :: chunks)
                          | _ => nls 1 (acc_chunks literal [] 0 false ((ks1, e1, txt1) :: chunks)) end))).
-  { unfold lines. rewrite chunks_value by discriminate. reflexivity. }
+  { unfold lines. rewrite <- app_assoc, <- map_app. fold tks'. rewrite chunks_value by discriminate. reflexivity. }
   rewrite Eval. unfold yields. eexists. eexists. split.
-  - destruct c; reflexivity.
+  - destruct c; cbn [to_model]; [reflexivity|reflexivity|]. rewrite Etail. reflexivity.
   - reflexivity.
 Qed.
 
@@ -1370,10 +1594,10 @@ Qed.
 (* ------------------------------------------------------------------------------------------ *)
 
 Lemma bs_loop_round_eof : forall (txt : list chr) F literal n f acc lb tb lbk s lk m w,
-  nobreak txt -> txt <> [] -> (n = O -> doc_end_b (txt ++ []) = false) -> m_col m = N.of_nat n -> (length txt < F)%nat ->
+  nobreak txt -> txt <> [] -> (n = O -> doc_ind_b (txt ++ []) = false) -> m_col m = N.of_nat n -> (length txt < F)%nat ->
   bs_loop F literal (N.of_nat n) (S f) acc lb tb lbk (mv s (txt ++ []) lk m w)
   = Ok ((rev txt ++ fold_sep literal acc lb tb lbk (is_blank (hd0 txt)), 0, 0),
-        mv s [] (rlk n lk) (mark_after m txt) w).
+        mv s [] (rlk n lk) (mark_after brk m txt) w).
 Proof.
   intros txt F literal n f acc lb tb lbk s lk m w Hnb Hne Hn Hcol HF.
   cbn [bs_loop].
@@ -1382,7 +1606,7 @@ Proof.
   destruct (breakz_parts _ (nobreak_hd0 _ Hnb Hne)) as [Hz Hb]. rewrite Hz. cbn [negb orb].
   destruct (N.eqb_spec (N.of_nat n) 0) as [E|E].
   - assert (En : n = O) by lia. subst n. cbn [rlk].
-    mstep ltac:(mstep ltac:(apply look_mv); apply next_is_document_end_mv; lia). rewrite (Hn eq_refl).
+    mstep ltac:(mstep ltac:(apply look_mv); apply next_is_document_indicator_mv; lia). rewrite (Hn eq_refl).
     mstep ltac:(apply next_is_mv). rewrite (hd0_app_ne txt) by exact Hne.
     fold (fold_sep literal acc lb tb lbk (is_blank (hd0 txt))).
     mstep ltac:(apply content_line_spec; [exact Hnb|reflexivity|exact HF]).
@@ -1394,8 +1618,8 @@ Proof.
     mstep ltac:(apply look_mv). mstep ltac:(apply next_is_mv). reflexivity.
 Qed.
 
-Lemma col_after_text (txt : list chr) m : nobreak txt -> m_col (mark_after m txt) = m_col m + N.of_nat (length txt).
-Proof. intros H. rewrite (mark_after_nolf _ (nobreak_nolf _ H)). reflexivity. Qed.
+Lemma col_after_text (txt : list chr) m : nobreak txt -> m_col (mark_after brk m txt) = m_col m + N.of_nat (length txt).
+Proof. intros H. rewrite (mark_after_nolf brk _ (nobreak_nolf _ H)). reflexivity. Qed.
 
 Lemma bs_loop_chunks_eof : forall (cs : list chunk) (cl : chunk) F literal n f acc lbk s lk m,
   Forall (chunk_ok F n) (cs ++ [cl]) -> Forall (chunk_col0 n) (cs ++ [cl]) -> (n < F)%nat ->
@@ -1422,10 +1646,10 @@ Proof.
     rewrite Nat2N.id in Hs. replace (Nat.min (n + e) n) with n in Hs by lia.
     replace (n + e - n)%nat with e in Hs by lia.
     destruct f as [|f]; [cbn in Hf; lia|].
-    set (m1 := mark_after m (blank_lines ks ++ sps n)) in *.
+    set (m1 := mark_after brk m (blank_lines ks ++ sps n)) in *.
     assert (Hcol1 : m_col m1 = N.of_nat n) by (apply col_after_blank_lines; exact Hcol).
     destruct (rlk_facts n lk1) as [Hrl1 Hrl2].
-    exists (rlk n lk1), (mark_after m1 (sps e ++ txt)). split; [exact Hrl2|]. split.
+    exists (rlk n lk1), (mark_after brk m1 (sps e ++ txt)). split; [exact Hrl2|]. split.
     { rewrite col_after_text by exact Hnbt. destruct (sps e ++ txt) as [|c0 t0]; [congruence|]. cbn [length]. lia. }
     mstep ltac:(exact Hs). rewrite N.add_0_l.
     replace (sps e ++ txt ++ []) with ((sps e ++ txt) ++ []) by (rewrite <- app_assoc; reflexivity).
@@ -1438,54 +1662,63 @@ Proof.
     cbn [flat_map]. fold (flat_map (chunk_text n) cs).
     set (REST := flat_map (chunk_text n) cs ++ chunk_text_nolf n cl ++ []).
     assert (Etxt : (chunk_text n (ks, e, txt) ++ flat_map (chunk_text n) cs) ++ chunk_text_nolf n cl ++ []
-                   = blank_lines ks ++ sps (n + e) ++ (txt ++ 10 :: REST)).
+                   = blank_lines ks ++ sps (n + e) ++ (txt ++ brk ++ REST)).
     { cbn [chunk_text]. subst REST. rewrite <- !app_assoc. reflexivity. }
     rewrite Etxt.
-    assert (Hhd' : hd0 (txt ++ 10 :: REST) <> 32).
-    { destruct txt as [|c t]; [intro H; change (10 = 32) in H; discriminate|exact Hhd]. }
-    assert (Hlast : N.of_nat n < N.of_nat (n + e) \/ is_break (hd0 (txt ++ 10 :: REST)) = false).
+    assert (Hhd' : hd0 (txt ++ brk ++ REST) <> 32).
+    { destruct txt as [|c t]; [apply (brk_not_space brk Hbrk)|exact Hhd]. }
+    assert (Hlast : N.of_nat n < N.of_nat (n + e) \/ is_break (hd0 (txt ++ brk ++ REST)) = false).
     { destruct Hne as [He|Hs]; [left; lia|right].
       rewrite hd0_app_ne by exact Hs. exact (proj2 (breakz_parts _ (nobreak_hd0 _ Hnb Hs))). }
-    destruct (skip_block_scalar_indent_spec ks (n + e) (txt ++ 10 :: REST) F F (N.of_nat n) 0 s lk m)
+    destruct (skip_block_scalar_indent_spec ks (n + e) (txt ++ brk ++ REST) F F (N.of_nat n) 0 s lk m)
       as [lk1 [Hle1 [Hne1 Hs]]]; auto.
     { apply Forall_impl with (2 := Hks). intros k Hk. lia. }
     { constructor; [lia|exact HksF]. }
     rewrite Nat2N.id in Hs. replace (Nat.min (n + e) n) with n in Hs by lia.
     replace (n + e - n)%nat with e in Hs by lia.
     destruct f as [|f]; [cbn in Hf; lia|].
-    set (m1 := mark_after m (blank_lines ks ++ sps n)) in *.
+    set (m1 := mark_after brk m (blank_lines ks ++ sps n)) in *.
     assert (Hcol1 : m_col m1 = N.of_nat n) by (apply col_after_blank_lines; exact Hcol).
     destruct (IH cl F literal n f
                  (rev (sps e ++ txt) ++ fold_sep literal acc 1 (N.of_nat (length ks)) lbk (is_blank (hd0 (sps e ++ txt))))
-                 (is_blank (hd0 (sps e ++ txt))) s (rlk n lk1) (nlm (mark_after m1 (sps e ++ txt))))
+                 (is_blank (hd0 (sps e ++ txt))) s (rlk n lk1) (mark_after brk (mark_after brk m1 (sps e ++ txt)) brk))
       as [lk' [mend [Hne2 [Hcm Hrec]]]]; auto.
+    { apply (col_brk brk Hbrk). }
     { cbn [length] in Hf. lia. }
     exists lk', mend. split; [exact Hne2|]. split; [exact Hcm|].
+    assert (Hfol : follow brk REST).
+    { subst REST. apply (follow_chunks F n).
+      - apply Forall_app in Hch'. exact (proj1 Hch').
+      - apply Forall_app in Hch'. destruct Hch' as [_ Hcl]. pose proof (Forall_inv Hcl) as Hcl1.
+        destruct cl as [[ksl el] txtl]. destruct Hcl1 as [_ [Hnbl [_ [Hnel _]]]]. cbn [chunk_text_nolf]. rewrite <- !app_assoc.
+        apply follow_blank_lines. apply follow_line; assumption. }
     mstep ltac:(exact Hs). rewrite N.add_0_l.
-    replace (sps e ++ txt ++ 10 :: REST) with ((sps e ++ txt) ++ 10 :: REST) by (rewrite <- app_assoc; reflexivity).
+    replace (sps e ++ txt ++ brk ++ REST) with ((sps e ++ txt) ++ brk ++ REST) by (rewrite <- app_assoc; reflexivity).
     rewrite bs_loop_round; auto.
-    intros Hn0. apply (doc_end_content n ks e txt (10 :: REST)); auto.
+    intros Hn0. apply (doc_end_content n ks e txt (brk ++ REST)); auto. apply (brk_is_breakz brk Hbrk).
 Qed.
 
-Lemma render_chunks_eof n : forall (cs : list chunk) (cl : chunk),
-  flat_map (fun l => LF :: render_line n l) (flat_map chunk_lines (cs ++ [cl]))
-  = 10 :: flat_map (chunk_text n) cs ++ chunk_text_nolf n cl.
+Lemma render_chunks_eof n : forall (cs : list chunk) (cl : chunk), Forall chunk_nb (cs ++ [cl]) ->
+  wbrk (flat_map (fun l => LF :: render_line n l) (flat_map chunk_lines (cs ++ [cl])))
+  = brk ++ flat_map (chunk_text n) cs ++ chunk_text_nolf n cl.
 Proof.
-  assert (H1 : forall ks e (s : list chr) X,
-             flat_map (fun l => LF :: render_line n l) (map Blank ks ++ [Text e s]) ++ X
-             = 10 :: blank_lines ks ++ sps (n + e) ++ s ++ X).
-  { intros ks e s X. rewrite flat_map_app. cbn [flat_map render_line]. rewrite app_nil_r, <- app_assoc. cbn [app].
-    rewrite flat_map_shift, render_blanks. change (spaces (n + e)) with (sps (n + e)). rewrite <- !app_assoc. reflexivity. }
-  induction cs as [|[[ks e] s] cs IH]; intros cl.
+  assert (H1 : forall ks e (s : list chr) X, nobreak s ->
+             wbrk (flat_map (fun l => LF :: render_line n l) (map Blank ks ++ [Text e s]) ++ X)
+             = brk ++ blank_lines ks ++ sps (n + e) ++ s ++ wbrk X).
+  { intros ks e s X Hs. rewrite flat_map_app. cbn [flat_map render_line]. rewrite app_nil_r, <- app_assoc. cbn [app].
+    rewrite flat_map_shift, wbrk_lf, !wbrk_app, render_blanks. change (spaces (n + e)) with (sps (n + e)).
+    rewrite wbrk_sps, (wbrk_nobreak s Hs). rewrite <- !app_assoc. reflexivity. }
+  induction cs as [|[[ks e] s] cs IH]; intros cl Hnb.
   - destruct cl as [[ks e] s]. cbn [app flat_map chunk_lines chunk_text_nolf]. rewrite app_nil_r.
-    rewrite <- (app_nil_r (flat_map _ (map Blank ks ++ [Text e s]))), H1, !app_nil_r. reflexivity.
-  - cbn [app flat_map chunk_lines chunk_text]. rewrite flat_map_app, IH, H1. rewrite <- !app_assoc. reflexivity.
+    rewrite <- (app_nil_r (flat_map _ (map Blank ks ++ [Text e s]))), H1, !app_nil_r; [reflexivity|exact (Forall_inv Hnb)].
+  - cbn [app flat_map chunk_lines chunk_text]. rewrite flat_map_app, H1 by exact (Forall_inv Hnb).
+    rewrite IH by exact (Forall_inv_tail Hnb). rewrite <- !app_assoc. reflexivity.
 Qed.
 
 Theorem block_scalar_chunks_eof : forall (s : sc strin) F literal c (explicit : option nat) (digit_first : bool) (hc : list chr)
     (cs : list chunk) (cl : chunk) (n : nat) pz inds,
   let lines := flat_map chunk_lines (cs ++ [cl]) in
-  si_chars (sc_in s) = render_block n literal c explicit digit_first hc lines EofNone ->
+  si_chars (sc_in s) = wbrk (render_block n literal c explicit digit_first hc lines EofNone) ->
   unroll_nb (sc_indents s) (sc_indent s) = (pz, inds) ->
   header_tail hc -> (2 * length hc + 2 < F)%nat ->
   hd0 (chunk_text_nolf n (hd cl cs)) <> 9 ->
@@ -1505,8 +1738,10 @@ Proof.
   { assert (Hne0 : cs ++ [cl] <> []) by (destruct cs; discriminate).
     pose proof (chunks_value literal c (cs ++ [cl]) [] [] Hne0) as E.
     cbn [map rev app length] in E. rewrite app_nil_r in E. symmetry. exact E. }
-  unfold render_block in Hchars. rewrite app_nil_r in Hchars. cbn [app] in Hchars. unfold lines in Hchars.
-  rewrite render_chunks_eof in Hchars.
+  assert (Hnbs : Forall chunk_nb (cs ++ [cl])).
+  { apply Forall_impl with (2 := Hch). intros a Ha. exact (chunk_ok_nb F n a Ha). }
+  unfold render_block in Hchars. rewrite app_nil_r in Hchars. rewrite wbrk_head in Hchars by exact Hhc. unfold lines in Hchars.
+  rewrite render_chunks_eof in Hchars by exact Hnbs.
   assert (HnF : (n < F)%nat).
   { assert (Hc : chunk_ok F n cl) by (apply Forall_app in Hch; destruct Hch as [_ H]; exact (Forall_inv H)).
     destruct cl as [[ks e] txt]. destruct Hc as [_ [_ [_ [_ [_ [_ Hl]]]]]]. lia. }
@@ -1522,7 +1757,7 @@ Proof.
     { apply (tab_tail F); assumption. }
     intros s1 lk2 m2 Hne2 Hcol2.
     replace (bs_loop F literal (N.of_nat n) F) with (bs_loop F literal (N.of_nat n) (S F')) by (rewrite HF; reflexivity).
-    assert (Hde : n = O -> doc_end_b ((sps e1 ++ txt1) ++ []) = false).
+    assert (Hde : n = O -> doc_ind_b ((sps e1 ++ txt1) ++ []) = false).
     { intros Hn0. apply (doc_end_content n ks1 e1 txt1 []); auto. destruct Hc1 as [_ [Hnb _]]. exact Hnb. }
     pstep ltac:(apply bs_loop_round_eof; auto).
     unfold bs_finish.
@@ -1538,19 +1773,29 @@ Proof.
     pose proof (Forall_inv Hc0) as Hcc1. pose proof (Forall_inv_tail Hc0) as Hc0'.
     set (REST := flat_map (chunk_text n) cs ++ chunk_text_nolf n cl ++ []).
     destruct (chunk_content_facts _ _ _ _ _ Hc1) as [Hne' [Hnbt Hlen]].
-    apply (scan_to_loop _ s F literal c explicit digit_first hc ks1 e1 txt1 (10 :: REST) n pz inds); auto.
+    apply (scan_to_loop _ s F literal c explicit digit_first hc ks1 e1 txt1 (brk ++ REST) n pz inds); auto.
     { rewrite Hchars. subst REST. cbn [chunk_text]. rewrite <- !app_assoc, !app_nil_r. reflexivity. }
     { apply (tab_tail F); assumption. }
+    { apply (brk_is_breakz brk Hbrk). }
     intros s1 lk2 m2 Hne2 Hcol2.
+    assert (Hfol : follow brk REST).
+    { subst REST. apply (follow_chunks F n).
+      - apply Forall_app in Hch'. exact (proj1 Hch').
+      - apply Forall_app in Hch'. destruct Hch' as [_ Hcl]. pose proof (Forall_inv Hcl) as Hcl1.
+        destruct cl as [[ksl el] txtl]. destruct Hcl1 as [_ [Hnbl [_ [Hnel _]]]]. cbn [chunk_text_nolf]. rewrite <- !app_assoc.
+        apply follow_blank_lines. apply follow_line; assumption. }
     replace (bs_loop F literal (N.of_nat n) F) with (bs_loop F literal (N.of_nat n) (S F')) by (rewrite HF; reflexivity).
     destruct (bs_loop_chunks_eof cs cl F literal n F'
                 (rev (sps e1 ++ txt1) ++ fold_sep literal [] 0 (N.of_nat (length ks1)) false (is_blank (hd0 (sps e1 ++ txt1))))
-                (is_blank (hd0 (sps e1 ++ txt1))) s1 (rlk n lk2) (nlm (mark_after m2 (sps e1 ++ txt1))))
+                (is_blank (hd0 (sps e1 ++ txt1))) s1 (rlk n lk2) (mark_after brk (mark_after brk m2 (sps e1 ++ txt1)) brk))
       as [lk3 [mend [Hne3 [Hcm Hloop]]]]; auto.
+    { apply (col_brk brk Hbrk). }
     { cbn [length] in HchL. lia. }
-    assert (Hde : n = O -> doc_end_b ((sps e1 ++ txt1) ++ 10 :: REST) = false).
-    { intros Hn0. apply (doc_end_content n ks1 e1 txt1 (10 :: REST)); auto. destruct Hc1 as [_ [Hnb _]]. exact Hnb. }
-    pstep ltac:(rewrite bs_loop_round; [exact Hloop|exact Hnbt|exact Hne'|exact Hde|exact Hcol2|exact Hlen]).
+    assert (Hde : n = O -> doc_ind_b ((sps e1 ++ txt1) ++ brk ++ REST) = false).
+    { intros Hn0. apply (doc_end_content n ks1 e1 txt1 (brk ++ REST)); auto.
+      - destruct Hc1 as [_ [Hnb _]]. exact Hnb.
+      - apply (brk_is_breakz brk Hbrk). }
+    pstep ltac:(rewrite bs_loop_round; [exact Hloop|exact Hnbt|exact Hne'|exact Hde|exact Hcol2|exact Hlen|exact Hfol]).
     unfold bs_finish.
     pstep ltac:(apply next_is_mv). pstep ltac:(apply col_mv). pstep ltac:(apply mark_mv).
     change (is_z (hd0 [])) with true.
@@ -1649,33 +1894,42 @@ Proof.
   - apply (IH (k :: ks) cs t H). exact (Forall_inv_tail Hls).
 Qed.
 
-Lemma first_char_chunk F n ck cs t : chunk_ok F n ck ->
-  first_char n (flat_map chunk_lines (ck :: cs) ++ map Blank t) = hd0 (chunk_text_nolf n ck).
+Lemma hd0_wbrk_tab X : hd0 X <> 9 -> hd0 (wbrk X) <> 9.
 Proof.
-  intros Hc. unfold first_char. rewrite render_chunks. cbn [flat_map]. destruct ck as [[ks e] txt].
-  replace (chunk_text n (ks, e, txt)) with (chunk_text_nolf n (ks, e, txt) ++ [10])
-    by (cbn [chunk_text chunk_text_nolf]; rewrite <- !app_assoc; reflexivity).
-  rewrite <- !app_assoc. apply hd0_app_ne. apply (chunk_nolf_ne F). exact Hc.
+  destruct X as [|c r]; [intros _ H; discriminate H|]. intros H. unfold wbrk. cbn [flat_map].
+  destruct (N.eqb_spec c 10) as [->|_]; [apply (brk_not_tab brk Hbrk)|exact H].
 Qed.
 
-(* (T4) literal style, explicit or auto-detected indentation, any chomping: every list of content lines (of any extra
+Lemma first_char_chunk F n ck cs t : Forall (chunk_ok F n) (ck :: cs) ->
+  first_char n (flat_map chunk_lines (ck :: cs) ++ map Blank t) <> 9 -> hd0 (chunk_text_nolf n ck) <> 9.
+Proof.
+  intros Hcs Hfc. unfold first_char in Hfc. apply hd0_wbrk_tab in Hfc.
+  rewrite render_chunks in Hfc by (apply Forall_impl with (2 := Hcs); intros a Ha; exact (chunk_ok_nb F n a Ha)).
+  cbn [flat_map] in Hfc. destruct ck as [[ks e] txt].
+  replace (chunk_text n (ks, e, txt)) with (chunk_text_nolf n (ks, e, txt) ++ brk) in Hfc
+    by (cbn [chunk_text chunk_text_nolf]; rewrite <- !app_assoc; reflexivity).
+  rewrite <- !app_assoc in Hfc. rewrite hd0_app_ne in Hfc; [exact Hfc|]. apply (chunk_nolf_ne F). exact (Forall_inv Hcs).
+Qed.
+
+(* (T4) both styles, explicit or auto-detected indentation, any chomping: every list of content lines (of any extra
    indentation, whitespace-only content lines included) and blank lines, with at least one content line, each line
-   terminated by a line feed, followed by a less indented line or the end of the input *)
-Theorem block_scalar_lines : forall (s : sc strin) F literal c (explicit : option nat) (digit_first : bool) (hc : list chr)
+   terminated by a line feed, followed by a less indented line, a document marker (content indentation 0), or the end
+   of the input — possibly inside a last line of j <= n spaces, which then is one more empty line ([eof_blank]) *)
+Theorem block_scalar_lines_gen : forall (s : sc strin) F literal c (explicit : option nat) (digit_first : bool) (hc : list chr)
     (lines : list bline) (j : nat) (r' : list chr) (n : nat) pz inds,
-  si_chars (sc_in s) = render_block n literal c explicit digit_first hc lines (EofRest (sps j ++ r')) ->
+  si_chars (sc_in s) = wbrk (render_block n literal c explicit digit_first hc lines (EofRest [])) ++ sps j ++ r' ->
   unroll_nb (sc_indents s) (sc_indent s) = (pz, inds) ->
   header_tail hc -> (2 * length hc + 2 < F)%nat ->
   Forall (line_ok F n) lines -> Forall (line_col0 n) lines -> (n = O -> first_char n lines <> 9) ->
   (S (length lines) < F)%nat -> has_text lines = true ->
-  ends_after n j r' -> hd0 r' <> 32 -> is_break (hd0 r') = false -> (r' = [] -> j = O) ->
+  ends_after n j r' -> hd0 r' <> 32 -> is_break (hd0 r') = false -> (r' <> [] -> hd0 r' <> 0) ->
   match explicit with
   | Some d => (1 <= d <= 9)%nat /\ N.of_nat n = (if (0 <=? pz)%Z then Z.to_N (pz + Z.of_N (N.of_nat d)) else N.of_nat d)
   | None => Z.to_N (pz + 1) <= N.of_nat n /\ exists txt, first_text lines = Some (O, txt) /\ txt <> []
   end ->
-  yields literal (block_value literal c lines) r' (scan_block_scalar str_ops F literal s).
+  yields literal (block_value literal c (lines ++ map Blank (eof_blank j r'))) r' (scan_block_scalar str_ops F literal s).
 Proof.
-  intros s F literal c explicit digit_first hc lines j r' n pz inds Hchars Hun Hhc HFhc Hls Hl0 Hfc Hlen Htext Hj Hr Hrb _ Hind.
+  intros s F literal c explicit digit_first hc lines j r' n pz inds Hchars Hun Hhc HFhc Hls Hl0 Hfc Hlen Htext Hj Hr Hrb Hrz Hind.
   destruct (split_lines lines []) as [cs t] eqn:E.
   pose proof (split_lines_spec lines [] cs t E) as Hsp. cbn [rev map app] in Hsp.
   destruct (split_lines_ok F n lines [] cs t E Hls) as [Hcs [Ht1 [Ht2 [Ht3 Ht4]]]]; [constructor|cbn [length]; lia|].
@@ -1684,7 +1938,7 @@ Proof.
   destruct cs as [|ck cs]; [congruence|].
   assert (Htab : hd0 (chunk_text_nolf n ck) <> 9).
   { destruct n as [|n']; [|apply tab_pos; discriminate].
-    rewrite <- (first_char_chunk F O ck cs t (Forall_inv Hcs)), <- Hsp. apply Hfc. reflexivity. }
+    apply (first_char_chunk F O ck cs t Hcs). rewrite <- Hsp. apply Hfc. reflexivity. }
   assert (Hft0 := Hind). rewrite Hsp in Hchars |- *.
   apply (block_scalar_chunks s F literal c explicit digit_first hc ck cs t j r' n pz inds); auto.
   - cbn [length] in Ht4. lia.
@@ -1694,11 +1948,32 @@ Proof.
     rewrite E in E'. inversion E'; subst. split; [reflexivity|exact Htx].
 Qed.
 
+(* every line is terminated by a line feed; what follows is not a last line of spaces ended by the input *)
+Theorem block_scalar_lines : forall (s : sc strin) F literal c (explicit : option nat) (digit_first : bool) (hc : list chr)
+    (lines : list bline) (j : nat) (r' : list chr) (n : nat) pz inds,
+  si_chars (sc_in s) = wbrk (render_block n literal c explicit digit_first hc lines (EofRest [])) ++ sps j ++ r' ->
+  unroll_nb (sc_indents s) (sc_indent s) = (pz, inds) ->
+  header_tail hc -> (2 * length hc + 2 < F)%nat ->
+  Forall (line_ok F n) lines -> Forall (line_col0 n) lines -> (n = O -> first_char n lines <> 9) ->
+  (S (length lines) < F)%nat -> has_text lines = true ->
+  ends_after n j r' -> hd0 r' <> 32 -> is_break (hd0 r') = false -> (r' = [] -> j = O) -> (r' <> [] -> hd0 r' <> 0) ->
+  match explicit with
+  | Some d => (1 <= d <= 9)%nat /\ N.of_nat n = (if (0 <=? pz)%Z then Z.to_N (pz + Z.of_N (N.of_nat d)) else N.of_nat d)
+  | None => Z.to_N (pz + 1) <= N.of_nat n /\ exists txt, first_text lines = Some (O, txt) /\ txt <> []
+  end ->
+  yields literal (block_value literal c lines) r' (scan_block_scalar str_ops F literal s).
+Proof.
+  intros s F literal c explicit digit_first hc lines j r' n pz inds Hchars Hun Hhc HFhc Hls Hl0 Hfc Hlen Htext Hj Hr Hrb Hj0 Hrz Hind.
+  assert (E : eof_blank j r' = []).
+  { unfold eof_blank. destruct r' as [|c0 r0]; [|reflexivity]. rewrite (Hj0 eq_refl). reflexivity. }
+  rewrite <- (app_nil_r lines) at 1. change (@nil bline) with (map Blank []). rewrite <- E.
+  apply (block_scalar_lines_gen s F literal c explicit digit_first hc lines j r' n pz inds); assumption.
+Qed.
 
 (* the same without a final line break: the input ends right after the last content line *)
-Theorem block_scalar_lines_eof : forall (s : sc strin) F literal c (explicit : option nat) (digit_first : bool) (hc : list chr)
+Theorem block_scalar_lines_eof_text : forall (s : sc strin) F literal c (explicit : option nat) (digit_first : bool) (hc : list chr)
     (lines : list bline) (n : nat) pz inds,
-  si_chars (sc_in s) = render_block n literal c explicit digit_first hc lines EofNone ->
+  si_chars (sc_in s) = wbrk (render_block n literal c explicit digit_first hc lines EofNone) ->
   unroll_nb (sc_indents s) (sc_indent s) = (pz, inds) ->
   header_tail hc -> (2 * length hc + 2 < F)%nat ->
   Forall (line_ok F n) lines -> Forall (line_col0 n) lines -> (n = O -> first_char n lines <> 9) ->
@@ -1723,13 +1998,12 @@ Proof.
   destruct (exists_last Hne) as [front [cl Ecs]].
   assert (Htab : hd0 (chunk_text_nolf n (hd cl front)) <> 9).
   { destruct n as [|n']; [|apply tab_pos; discriminate].
-    assert (Efc : first_char O lines = hd0 (chunk_text_nolf O (hd cl front))).
-    { rewrite Hsp, Ecs. destruct front as [|x front]; cbn [app hd].
-      - rewrite <- (app_nil_r (flat_map chunk_lines [cl])). change (@nil bline) with (map Blank []).
-        apply (first_char_chunk F). rewrite Ecs in Hcs. exact (Forall_inv Hcs).
-      - rewrite <- (app_nil_r (flat_map chunk_lines (x :: front ++ [cl]))). change (@nil bline) with (map Blank []).
-        apply (first_char_chunk F). rewrite Ecs in Hcs. exact (Forall_inv Hcs). }
-    rewrite <- Efc. apply Hfc. reflexivity. }
+    specialize (Hfc eq_refl). rewrite Hsp, Ecs in Hfc. rewrite Ecs in Hcs.
+    destruct front as [|x front]; cbn [app hd] in *.
+    - rewrite <- (app_nil_r (flat_map chunk_lines [cl])) in Hfc. change (@nil bline) with (map Blank []) in Hfc.
+      exact (first_char_chunk F O cl [] [] Hcs Hfc).
+    - rewrite <- (app_nil_r (flat_map chunk_lines (x :: front ++ [cl]))) in Hfc. change (@nil bline) with (map Blank []) in Hfc.
+      exact (first_char_chunk F O x (front ++ [cl]) [] Hcs Hfc). }
   assert (Hind' : match explicit with
                   | Some d => (1 <= d <= 9)%nat /\ N.of_nat n = (if (0 <=? pz)%Z then Z.to_N (pz + Z.of_N (N.of_nat d)) else N.of_nat d)
                   | None => Z.to_N (pz + 1) <= N.of_nat n /\ (let '(ks, e, txt) := hd cl front in e = O /\ txt <> [])
@@ -1746,16 +2020,89 @@ Proof.
   rewrite app_length in Ht4. cbn [length] in Ht4. lia.
 Qed.
 
+(* the end of the input without a final line break, in general: right after the last content line (which may be a
+   line of more than n spaces), or inside a last line of 1 <= j <= n spaces — an empty line that clip drops and keep
+   counts.  (A last line [Blank 0] before the end of the input is not a line: that text is the one with a final
+   line break and one line less.) *)
+Definition last_line_nonempty (lines : list bline) : Prop :=
+  match rev lines with Blank O :: _ => False | _ => True end.
+
+Lemma render_block_eof_blank n literal c explicit digit_first hc lines j :
+  wbrk (render_block n literal c explicit digit_first hc (lines ++ [Blank j]) EofNone)
+  = wbrk (render_block n literal c explicit digit_first hc lines (EofRest [])) ++ sps j ++ [].
+Proof.
+  unfold render_block. rewrite flat_map_app. cbn [flat_map render_line app]. rewrite ?app_nil_r.
+  replace (header literal c explicit digit_first ++ hc ++ flat_map (fun l => LF :: render_line n l) lines ++ LF :: spaces j)
+    with ((header literal c explicit digit_first ++ hc ++ flat_map (fun l => LF :: render_line n l) lines ++ [LF]) ++ sps j)
+    by (rewrite <- !app_assoc; reflexivity).
+  rewrite wbrk_app, wbrk_sps. reflexivity.
+Qed.
+
+Lemma has_text_app l1 l2 : has_text (l1 ++ l2) = has_text l1 || has_text l2.
+Proof. apply existsb_app. Qed.
+
+Lemma first_text_app l1 l2 : has_text l1 = true -> first_text (l1 ++ l2) = first_text l1.
+Proof.
+  induction l1 as [|[e s0|k] l1 IH]; intros H; cbn [app first_text]; [discriminate|reflexivity|].
+  apply IH. exact H.
+Qed.
+
+Lemma first_char_app n l1 l2 : l1 <> [] -> first_char n (l1 ++ l2) = first_char n l1.
+Proof.
+  intros Hne. unfold first_char. rewrite flat_map_app. apply hd0_app_ne.
+  destruct l1 as [|l l1]; [congruence|]. cbn [flat_map]. destruct (render_line n l); discriminate.
+Qed.
+
+Theorem block_scalar_lines_eof : forall (s : sc strin) F literal c (explicit : option nat) (digit_first : bool) (hc : list chr)
+    (lines : list bline) (n : nat) pz inds,
+  si_chars (sc_in s) = wbrk (render_block n literal c explicit digit_first hc lines EofNone) ->
+  unroll_nb (sc_indents s) (sc_indent s) = (pz, inds) ->
+  header_tail hc -> (2 * length hc + 2 < F)%nat ->
+  Forall (line_ok F n) lines -> Forall (line_col0 n) lines -> (n = O -> first_char n lines <> 9) ->
+  (S (length lines) < F)%nat -> has_text lines = true ->
+  last_line_nonempty lines ->
+  match explicit with
+  | Some d => (1 <= d <= 9)%nat /\ N.of_nat n = (if (0 <=? pz)%Z then Z.to_N (pz + Z.of_N (N.of_nat d)) else N.of_nat d)
+  | None => Z.to_N (pz + 1) <= N.of_nat n /\ exists txt, first_text lines = Some (O, txt) /\ txt <> []
+  end ->
+  yields literal (block_value literal c lines) [] (scan_block_scalar str_ops F literal s).
+Proof.
+  intros s F literal c explicit digit_first hc lines n pz inds Hchars Hun Hhc HFhc Hls Hl0 Hfc Hlen Htext Hlast Hind.
+  unfold last_line_nonempty in Hlast.
+  destruct (rev lines) as [|l rl] eqn:Erev.
+  { apply (f_equal (@rev bline)) in Erev. rewrite rev_involutive in Erev. subst lines. discriminate. }
+  apply (f_equal (@rev bline)) in Erev. rewrite rev_involutive in Erev. cbn [rev] in Erev.
+  destruct l as [e0 s0|j].
+  - (* the last line is a content line *)
+    apply (block_scalar_lines_eof_text s F literal c explicit digit_first hc lines n pz inds); auto.
+    unfold trailing_blanks. rewrite Erev, rev_app_distr. reflexivity.
+  - (* the last line holds j >= 1 spaces *)
+    destruct j as [|j']; [contradiction|].
+    set (l0 := rev rl) in *. subst lines.
+    rewrite has_text_app in Htext. cbn [has_text existsb is_text orb] in Htext. rewrite orb_false_r in Htext.
+    assert (Hne0 : l0 <> []) by (destruct l0; [discriminate|discriminate]).
+    apply Forall_app in Hls. destruct Hls as [Hls Hlj]. apply Forall_app in Hl0. destruct Hl0 as [Hl0 _].
+    pose proof (Forall_inv Hlj) as [Hjn HjF]. cbn beta in Hjn, HjF.
+    rewrite render_block_eof_blank in Hchars.
+    change [Blank (S j')] with (map Blank (eof_blank (S j') [])).
+    apply (block_scalar_lines_gen s F literal c explicit digit_first hc l0 (S j') [] n pz inds); auto.
+    + intros Hn0. rewrite <- (first_char_app n l0 [Blank (S j')] Hne0). apply Hfc. exact Hn0.
+    + rewrite app_length in Hlen. cbn [length] in Hlen. lia.
+    + right. left. split; [reflexivity|exact Hjn].
+    + intro H. cbv in H. discriminate H.
+    + destruct explicit as [d|]; [exact Hind|]. rewrite first_text_app in Hind by exact Htext. exact Hind.
+Qed.
+
 (* ------------------------------------------------------------------------------------------ *)
 (* scalars without any content line                                                            *)
 (* ------------------------------------------------------------------------------------------ *)
 Lemma line_after_blank_lines : forall ks j m,
-  m_line (mark_after m (blank_lines ks ++ sps j)) = m_line m + N.of_nat (length ks).
+  m_line (mark_after brk m (blank_lines ks ++ sps j)) = m_line m + N.of_nat (length ks).
 Proof.
   induction ks as [|k ks IH]; intros j m.
   - cbn [blank_lines flat_map app length N.of_nat]. rewrite mark_after_spaces. cbn [adv m_line]. lia.
   - cbn [blank_lines flat_map]. fold (blank_lines ks). rewrite <- app_assoc, mark_after_app, mark_after_blank_line, IH.
-    cbn [nlm adv m_line length]. lia.
+    rewrite (line_brk brk Hbrk). cbn [adv m_line length]. lia.
 Qed.
 
 Lemma block_value_blanks literal c l :
@@ -1772,13 +2119,13 @@ Definition empty_lines (ks : list nat) (j : nat) (r' : list chr) : list bline :=
 
 Theorem block_scalar_empty : forall (s : sc strin) F literal c (explicit : option nat) (digit_first : bool)
     (hc : list chr) (ks : list nat) (j : nat) (r' : list chr) pz inds,
-  si_chars (sc_in s) = header literal c explicit digit_first ++ hc ++ 10 :: blank_lines ks ++ sps j ++ r' ->
+  si_chars (sc_in s) = header literal c explicit digit_first ++ hc ++ brk ++ blank_lines ks ++ sps j ++ r' ->
   unroll_nb (sc_indents s) (sc_indent s) = (pz, inds) ->
   header_tail hc -> (2 * length hc + 2 < F)%nat ->
   Forall (fun k => (k < F)%nat) (j :: ks) -> (S (length ks) < F)%nat ->
   hd0 r' <> 32 -> is_break (hd0 r') = false -> hd0 (blank_lines ks ++ sps j ++ r') <> 9 ->
-  (* the end of the input, or a line that belongs to an enclosing collection *)
-  (r' = [] \/ (hd0 r' <> 0 /\ (Z.of_nat j <= pz)%Z)) ->
+  (* the end of the input, a line that belongs to an enclosing collection, or a document marker at column 0 *)
+  (r' = [] \/ (hd0 r' <> 0 /\ (Z.of_nat j <= pz)%Z) \/ (j = O /\ doc_ind_b r' = true)) ->
   match explicit with
   | Some d => (1 <= d <= 9)%nat /\
               let n := if (0 <=? pz)%Z then Z.to_N (pz + Z.of_N (N.of_nat d)) else N.of_nat d in
@@ -1790,17 +2137,18 @@ Proof.
   intros s F literal c explicit digit_first hc ks j r' pz inds Hchars Hun Hhc HFhc HF HFl Hr Hrb Htab Hend Hind.
   unfold empty_lines. rewrite block_value_blanks.
   apply (scan_header _ s F literal c explicit digit_first hc (blank_lines ks ++ sps j ++ r') pz inds); auto.
+  { apply follow_blank_lines. apply follow_sps. apply (follow_nb brk). exact Hrb. }
   { destruct explicit; tauto. }
   intros lk1 mh Hlk1 Hmh Hline.
   set (s1 := set_indent pz inds s).
   assert (Hs1 : forall cs lk m w, sc_indent (mv s1 cs lk m w) = pz) by reflexivity.
   assert (Hmk : forall cs lk m w, sc_mark (mv s1 cs lk m w) = m) by reflexivity.
   unfold bs_main. pstep ltac:(apply get_mv). rewrite !Hs1.
-  set (mend := mark_after mh (blank_lines ks ++ sps j)).
+  set (mend := mark_after brk mh (blank_lines ks ++ sps j)).
   assert (Hcolend : m_col mend = N.of_nat j) by (apply col_after_blank_lines; exact Hmh).
   assert (Hlineend : m_line mend = m_line mh + N.of_nat (length ks)) by apply line_after_blank_lines.
   match goal with |- yields _ _ _ (bind ?ib ?k ?st) =>
-    assert (Hib : exists lk2 indent, lk2 <> O /\ (r' <> [] -> N.of_nat j < indent) /\
+    assert (Hib : exists lk2 indent, lk2 <> O /\ (r' <> [] -> (Z.of_nat j <= pz)%Z -> N.of_nat j < indent) /\
               ib st = Ok ((indent, N.of_nat (length ks)), mv s1 r' lk2 mend true))
   end.
   { destruct explicit as [d|]; cbn [inc_of].
@@ -1810,8 +2158,8 @@ Proof.
       assert (Hn0 : n <> 0) by (subst n; destruct (0 <=? pz)%Z eqn:E; [apply Z.leb_le in E|]; lia).
       destruct (N.eqb_spec n 0) as [Hbad|_]; [contradiction|].
       pose proof (Forall_inv Hks) as Hj. pose proof (Forall_inv_tail Hks) as Hks'.
-      assert (Hjn : r' <> [] -> N.of_nat j < n).
-      { intros Hne. destruct Hend as [E|[_ Hjp]]; [contradiction|]. subst n.
+      assert (Hjn : r' <> [] -> (Z.of_nat j <= pz)%Z -> N.of_nat j < n).
+      { intros Hne Hjp. subst n.
         destruct (0 <=? pz)%Z eqn:E; [apply Z.leb_le in E|apply Z.leb_gt in E]; lia. }
       clearbody n.
       destruct (skip_block_scalar_indent_spec ks j r' F F n 0 s1 lk1 mh) as [lk2 [Hle2 [Hne2 Hs]]]; auto.
@@ -1823,11 +2171,11 @@ Proof.
       destruct (skip_first_line_indent_spec ks j r' F F 0 0 s1 lk1 mh) as [lk2 [Hle2 [Hne2 Hs]]]; auto.
       { inversion HF; subst. lia. }
       eexists lk2, _. split; [exact Hne2|]. split; [|mstep ltac:(exact Hs); cbn [fst snd]; rewrite N.add_0_l; reflexivity].
-      intros Hne. destruct Hend as [E|[_ Hjp]]; [contradiction|]. destruct (0 <? pz)%Z; lia. }
+      intros Hne Hjp. destruct (0 <? pz)%Z; lia. }
   destruct Hib as [lk2 [indent [Hne2 [Hind2 Hib]]]].
   pstep ltac:(exact Hib).
   pstep ltac:(apply next_is_mv). pstep ltac:(apply get_mv). rewrite !Hmk, !Hs1.
-  destruct Hend as [->|[Hnz Hjp]].
+  destruct Hend as [->|Hend].
   - (* the end of the input *)
     change (is_z (hd0 [])) with true. cbv match.
     rewrite Hcolend, Hlineend, Hline.
@@ -1839,28 +2187,173 @@ Proof.
       + destruct (N.ltb_spec 0 (N.of_nat (S j))) as [_|Hbad]; [|lia].
         rewrite nls_repeat, app_nil_r. unfold lfs. f_equal. lia. }
     rewrite Ev. unfold yields. eexists. eexists. split; reflexivity.
-  - assert (Hz : is_z (hd0 r') = false) by (apply N.eqb_neq; exact Hnz).
+  - assert (Hnz : hd0 r' <> 0).
+    { destruct Hend as [[H _]|[_ H]]; [exact H|]. apply doc_ind_not_z in H. intro E. rewrite E in H. discriminate H. }
+    assert (Hz : is_z (hd0 r') = false) by (apply N.eqb_neq; exact Hnz).
     rewrite Hz. cbv match.
     assert (Hne : r' <> []) by (intros ->; apply Hnz; reflexivity).
-    specialize (Hind2 Hne).
     rewrite Hcolend.
-    destruct (Z.ltb_spec pz (Z.of_N (N.of_nat j))) as [Hbad|_]; [lia|]. rewrite andb_false_r.
-    pstep ltac:(reflexivity). pstep ltac:(apply get_mv). rewrite !Hmk.
+    (* the wrong-indentation test: a document marker at column 0 passes it *)
+    match goal with |- yields _ _ _ (bind ?wr ?k ?st) =>
+      assert (Hwr : exists lk3, lk3 <> O /\ wr st = Ok (false, mv s1 r' lk3 mend true)) end.
+    { destruct Hend as [[_ Hjp]|[Hj0 Hde]].
+      - exists lk2. split; [exact Hne2|].
+        destruct (Z.ltb_spec pz (Z.of_N (N.of_nat j))) as [Hbad|_]; [lia|]. rewrite andb_false_r. reflexivity.
+      - subst j. destruct ((N.of_nat 0 <? indent) && (pz <? Z.of_N (N.of_nat 0))%Z).
+        + exists (Nat.max lk2 4). split; [lia|].
+          mstep ltac:(apply look_mv). mstep ltac:(apply next_is_document_indicator_mv; lia). rewrite Hde. reflexivity.
+        + exists lk2. split; [exact Hne2|reflexivity]. }
+    destruct Hwr as [lk3 [Hne3 Hwr]]. pstep ltac:(exact Hwr).
+    pstep ltac:(apply get_mv). rewrite !Hmk.
     assert (HFS : exists F', F = S F') by (destruct F; [lia|eexists; reflexivity]).
     destruct HFS as [F' HFS].
     replace (bs_loop F literal indent F) with (bs_loop F literal indent (S F')) by (rewrite HFS; reflexivity).
-    cbn [bs_loop].
-    pstep ltac:(mstep ltac:(apply col_mv); mstep ltac:(apply next_is_mv); rewrite Hcolend;
-                destruct (N.eqb_spec (N.of_nat j) indent) as [E|_]; [lia|]; reflexivity).
+    assert (Hloop : exists lk4, bs_loop F literal indent (S F') [] 0 (N.of_nat (length ks)) false (mv s1 r' lk3 mend true)
+                                = Ok (([], 0, N.of_nat (length ks)), mv s1 r' lk4 mend true)).
+    { cbn [bs_loop]. destruct (N.eqb_spec (N.of_nat j) indent) as [E|Hneq].
+      - (* column = indentation: only at a document marker, with content indentation 0 *)
+        destruct Hend as [[_ Hjp]|[Hj0 Hde]]; [specialize (Hind2 Hne Hjp); lia|]. subst j.
+        exists (Nat.max lk3 4).
+        mstep ltac:(apply col_mv). mstep ltac:(apply next_is_mv). rewrite Hcolend, Hz, <- E.
+        change (N.of_nat 0 =? N.of_nat 0) with true. cbn [negb orb]. change (N.of_nat 0 =? 0) with true. cbv match.
+        mstep ltac:(mstep ltac:(apply look_mv); apply next_is_document_indicator_mv; lia). rewrite Hde. reflexivity.
+      - exists lk3. mstep ltac:(apply col_mv). mstep ltac:(apply next_is_mv). rewrite Hcolend.
+        destruct (N.eqb_spec (N.of_nat j) indent) as [E|_]; [contradiction|]. reflexivity. }
+    destruct Hloop as [lk4 Hloop]. pstep ltac:(exact Hloop).
     unfold bs_finish.
     pstep ltac:(apply next_is_mv). pstep ltac:(apply col_mv). pstep ltac:(apply mark_mv).
-    rewrite Hz. cbn [andb].
+    rewrite Hz. change (0 =? 0) with true. cbn [andb negb].
     match goal with |- yields _ ?v _ (ret (_, TScalar _ (rev ?a)) _) => assert (Ev : rev a = v) end.
     { destruct r' as [|c0 r0]; [congruence|]. rewrite app_nil_r.
       destruct c; cbn [to_model]; try reflexivity.
       rewrite nls_of_nat. reflexivity. }
     rewrite Ev. unfold yields. eexists. eexists. split; reflexivity.
 Qed.
+
+(* ------------------------------------------------------------------------------------------ *)
+(* the input ends on the header line: "|", ">2-  # c" <eof> — the empty scalar                 *)
+(* ------------------------------------------------------------------------------------------ *)
+Lemma sbsi_eof : forall F fuel indent breaks s lk m w, (0 < F)%nat -> (0 < fuel)%nat ->
+  exists lk', lk' <> O /\
+  skip_block_scalar_indent str_ops F fuel indent breaks (mv s [] lk m w) = Ok (breaks, mv s [] lk' m w).
+Proof.
+  intros F fuel indent breaks s lk m w HF Hfuel. destruct fuel as [|fuel]; [lia|]. rewrite sbsi_eq.
+  change (Nat.ltb (bufmaxlen str_ops) 2) with false. cbv iota.
+  assert (Hnil : hd0 (@nil chr) <> 32) by discriminate.
+  assert (Hss : forall cb lk0, (cb = true -> lk0 <> O) ->
+            skip_spaces_to str_ops F indent cb (mv s [] lk0 m w) = Ok (tt, mv s [] lk0 m w)).
+  { intros cb lk0 Hcb. pose proof (skip_spaces_to_spec 0 [] F indent cb s lk0 m w 0 Hnil HF Hcb eq_refl) as Hs.
+    rewrite adv_0 in Hs. exact Hs. }
+  assert (Hsp : exists lk', lk' <> O /\ sbsi_sp F indent (mv s [] lk m w) = Ok (tt, mv s [] lk' m w)).
+  { unfold sbsi_sp. change (bufmaxlen str_ops) with 128%nat. destruct (indent <? N.of_nat (128 - 2)).
+    - exists (Nat.max lk 128). split; [lia|]. mstep ltac:(apply look_mv). apply Hss. discriminate.
+    - exists (Nat.max (Nat.max lk 128) 2). split; [lia|]. destruct F as [|F']; [lia|]. cbn [wide].
+      change (bufmaxlen str_ops) with 128%nat.
+      mstep ltac:(mstep ltac:(apply look_mv); mstep ltac:(apply Hss; lia);
+                  mstep ltac:(apply col_mv); mstep ltac:(apply buf_is_empty_mv);
+                  destruct (Nat.eqb_spec (Nat.max lk 128) 0) as [E|_]; [lia|]; cbv iota;
+                  mstep ltac:(apply peek_mv); cbn [negb andb]; rewrite orb_true_r; reflexivity).
+      apply look_mv. }
+  destruct Hsp as [lk' [Hne Hsp]]. exists lk'. split; [exact Hne|].
+  mstep ltac:(reflexivity). mstep ltac:(exact Hsp). mstep ltac:(apply next_is_mv). reflexivity.
+Qed.
+
+Theorem block_scalar_header_eof : forall (s : sc strin) F literal c (explicit : option nat) (digit_first : bool) (hc : list chr) pz inds,
+  si_chars (sc_in s) = header literal c explicit digit_first ++ hc ->
+  unroll_nb (sc_indents s) (sc_indent s) = (pz, inds) ->
+  header_tail hc -> (2 * length hc + 2 < F)%nat ->
+  match explicit with Some d => (1 <= d <= 9)%nat | None => True end ->
+  yields literal [] [] (scan_block_scalar str_ops F literal s).
+Proof.
+  intros s F literal c explicit digit_first hc pz inds Hchars Hun Hhc HFhc Hd.
+  apply (scan_header_line _ s F literal c explicit digit_first hc [] pz inds); auto.
+  { rewrite app_nil_r. exact Hchars. }
+  intros lk1 mh w1 Hlk1 Hline.
+  set (s1 := set_indent pz inds s).
+  assert (Hmk : forall cs lk m w, sc_mark (mv s1 cs lk m w) = m) by reflexivity.
+  change (is_break (hd0 [])) with false. cbv match.
+  pstep ltac:(reflexivity). pstep ltac:(apply look_ch_mv). change (hd0 [] =? 9) with false. cbv match.
+  unfold bs_main. pstep ltac:(apply get_mv).
+  assert (HF0 : (0 < F)%nat) by lia.
+  match goal with |- yields _ _ _ (bind ?ib ?k ?st) =>
+    assert (Hib : exists lk2 r, ib st = Ok (r, mv s1 [] lk2 mh w1))
+  end.
+  { match goal with |- context [if ?x =? 0 then _ else _] => destruct (x =? 0) end.
+    - destruct F as [|F']; [lia|]. rewrite sfli_eq.
+      eexists. eexists.
+      mstep ltac:(mstep ltac:(apply (sfl_sp_spec 0 [] (S F') s1 (Nat.max lk1 1) mh w1); [discriminate|lia]);
+                  rewrite adv_0; mstep ltac:(apply col_mv); mstep ltac:(apply next_is_mv); reflexivity).
+      reflexivity.
+    - match goal with |- context [skip_block_scalar_indent str_ops F F ?i 0] =>
+        destruct (sbsi_eof F F i 0 s1 (Nat.max lk1 1) mh w1 HF0 HF0) as [lk2 [_ Hs]] end.
+      eexists. eexists. mstep ltac:(exact Hs). reflexivity. }
+  destruct Hib as [lk2 [[indent tbreaks] Hib]].
+  pstep ltac:(exact Hib).
+  pstep ltac:(apply next_is_mv). pstep ltac:(apply get_mv). rewrite !Hmk.
+  change (is_z (hd0 [])) with true. cbv match. rewrite Hline, N.eqb_refl.
+  unfold yields. eexists. eexists. split; [destruct c; reflexivity|reflexivity].
+Qed.
+
+End Brk.
+
+(* ------------------------------------------------------------------------------------------ *)
+(* the three break styles of the specification ([with_breaks]: 0 = LF, 1 = CR LF, 2 = CR)       *)
+(* ------------------------------------------------------------------------------------------ *)
+Definition kbrk (k : N) : list chr := if k =? 1 then [13; 10] else if k =? 2 then [13] else [10].
+Lemma kbrk_style k : break_style (kbrk k).
+Proof. unfold kbrk, break_style. destruct (k =? 1); [right; left; reflexivity|]. destruct (k =? 2); [right; right|left]; reflexivity. Qed.
+Lemma with_breaks_wbrk k t : with_breaks k t = wbrk (kbrk k) t.
+Proof. reflexivity. Qed.
+Lemma with_breaks_lf t : with_breaks 0 t = t.
+Proof. induction t as [|c t IH]; [reflexivity|]. unfold with_breaks in *. cbn [flat_map]. rewrite IH. destruct (c =? 10) eqn:E; [apply N.eqb_eq in E; subst|]; reflexivity. Qed.
+
+(* T4 for every break style: the text is the rendering of the specification with its line feeds replaced *)
+Theorem block_scalar_lines_k : forall k (s : sc strin) F literal c (explicit : option nat) (digit_first : bool) (hc : list chr)
+    (lines : list bline) (j : nat) (r' : list chr) (n : nat) pz inds,
+  si_chars (sc_in s) = with_breaks k (render_block n literal c explicit digit_first hc lines (EofRest [])) ++ sps j ++ r' ->
+  unroll_nb (sc_indents s) (sc_indent s) = (pz, inds) ->
+  header_tail hc -> (2 * length hc + 2 < F)%nat ->
+  Forall (line_ok F n) lines -> Forall (line_col0 n) lines -> (n = O -> first_char n lines <> 9) ->
+  (S (length lines) < F)%nat -> has_text lines = true ->
+  ends_after n j r' -> hd0 r' <> 32 -> is_break (hd0 r') = false -> (r' = [] -> j = O) -> (r' <> [] -> hd0 r' <> 0) ->
+  match explicit with
+  | Some d => (1 <= d <= 9)%nat /\ N.of_nat n = (if (0 <=? pz)%Z then Z.to_N (pz + Z.of_N (N.of_nat d)) else N.of_nat d)
+  | None => Z.to_N (pz + 1) <= N.of_nat n /\ exists txt, first_text lines = Some (O, txt) /\ txt <> []
+  end ->
+  yields literal (block_value literal c lines) r' (scan_block_scalar str_ops F literal s).
+Proof. intros k. exact (block_scalar_lines (kbrk k) (kbrk_style k)). Qed.
+
+Theorem block_scalar_lines_eof_k : forall k (s : sc strin) F literal c (explicit : option nat) (digit_first : bool) (hc : list chr)
+    (lines : list bline) (n : nat) pz inds,
+  si_chars (sc_in s) = with_breaks k (render_block n literal c explicit digit_first hc lines EofNone) ->
+  unroll_nb (sc_indents s) (sc_indent s) = (pz, inds) ->
+  header_tail hc -> (2 * length hc + 2 < F)%nat ->
+  Forall (line_ok F n) lines -> Forall (line_col0 n) lines -> (n = O -> first_char n lines <> 9) ->
+  (S (length lines) < F)%nat -> has_text lines = true ->
+  last_line_nonempty lines ->
+  match explicit with
+  | Some d => (1 <= d <= 9)%nat /\ N.of_nat n = (if (0 <=? pz)%Z then Z.to_N (pz + Z.of_N (N.of_nat d)) else N.of_nat d)
+  | None => Z.to_N (pz + 1) <= N.of_nat n /\ exists txt, first_text lines = Some (O, txt) /\ txt <> []
+  end ->
+  yields literal (block_value literal c lines) [] (scan_block_scalar str_ops F literal s).
+Proof. intros k. exact (block_scalar_lines_eof (kbrk k) (kbrk_style k)). Qed.
+
+Theorem block_scalar_empty_k : forall k (s : sc strin) F literal c (explicit : option nat) (digit_first : bool)
+    (hc : list chr) (ks : list nat) (j : nat) (r' : list chr) pz inds,
+  si_chars (sc_in s) = header literal c explicit digit_first ++ hc ++ kbrk k ++ blank_lines (kbrk k) ks ++ sps j ++ r' ->
+  unroll_nb (sc_indents s) (sc_indent s) = (pz, inds) ->
+  header_tail hc -> (2 * length hc + 2 < F)%nat ->
+  Forall (fun k => (k < F)%nat) (j :: ks) -> (S (length ks) < F)%nat ->
+  hd0 r' <> 32 -> is_break (hd0 r') = false -> hd0 (blank_lines (kbrk k) ks ++ sps j ++ r') <> 9 ->
+  (r' = [] \/ (hd0 r' <> 0 /\ (Z.of_nat j <= pz)%Z) \/ (j = O /\ doc_ind_b r' = true)) ->
+  match explicit with
+  | Some d => (1 <= d <= 9)%nat /\
+              let n := if (0 <=? pz)%Z then Z.to_N (pz + Z.of_N (N.of_nat d)) else N.of_nat d in
+              Forall (fun k => N.of_nat k <= n) (j :: ks)
+  | None => True
+  end ->
+  yields literal (block_value literal c (empty_lines ks j r')) r' (scan_block_scalar str_ops F literal s).
+Proof. intros k. exact (block_scalar_empty (kbrk k) (kbrk_style k)). Qed.
 
 (* ========================================================================================== *)
 (* Part 5: the complete statement, examples on the whole pipeline, refutation witnesses         *)
@@ -1926,26 +2419,42 @@ Definition C05_full : Prop :=
     first_block_scalar (fst (scan_str (case_text b))) = Some (case_style b, case_value b) /\
     forall cap, (8 <= cap)%nat -> first_block_scalar (fst (scan_buf cap (case_text b))) = Some (case_style b, case_value b).
 
-(* It does not hold of the faithful model: three classes of inputs (see known_findings_c05.jsonl) *)
-Definition witness_clip_eof : bcase := mkcase true CClip None None [] [] [R 1 "a"; R 1 ""] EofNone.
-Definition witness_keep_eof : bcase := mkcase true CKeep None (Some O) (L "k: ") [] [R 2 "a"; R 1 ""] EofNone.
-Definition witness_doc_start : bcase := mkcase true CClip None None [] [] [R 0 "a"] (EofRest (L "---/b/")).
+(* It does not hold of the faithful model.  One class of inputs is left (known_findings_c05.jsonl,
+   top-level-column-0-content-starts-with-tab): a top-level scalar with auto-detected indentation whose first line
+   starts with a tab at column 0.  The content indentation is 0 and the tab is content (l-nb-literal-text(0) = s-indent(0)
+   nb-char+), but scan_block_scalar rejects a tab right behind the header line break before it knows the indentation
+   ("a block scalar content cannot start with a tab").  The same line one line further down is accepted. *)
+Definition witness_tab : bcase := mkcase true CClip None None [] [] [(O, [9; 120])] EofNewline.
 
-Lemma witness_clip_eof_fails :
-  case_ok witness_clip_eof = true /\ case_text witness_clip_eof = L "|/ a/ " /\ case_value witness_clip_eof = L "a/" /\
-  first_block_scalar (fst (scan_str (case_text witness_clip_eof))) = Some (Literal, L "a//").
-Proof. vm_compute. repeat split. Qed.
-Lemma witness_keep_eof_fails :
-  case_ok witness_keep_eof = true /\ case_text witness_keep_eof = L "k: |+/  a/ " /\ case_value witness_keep_eof = L "a//" /\
-  first_block_scalar (fst (scan_str (case_text witness_keep_eof))) = Some (Literal, L "a/").
-Proof. vm_compute. repeat split. Qed.
-Lemma witness_doc_start_fails :
-  case_ok witness_doc_start = true /\ case_text witness_doc_start = L "|/a/---/b/" /\ case_value witness_doc_start = L "a/" /\
-  first_block_scalar (fst (scan_str (case_text witness_doc_start))) = Some (Literal, L "a/---/b/").
+Lemma witness_tab_fails :
+  case_ok witness_tab = true /\ case_text witness_tab = [124; 10; 9; 120; 10] /\ case_value witness_tab = [9; 120; 10] /\
+  first_block_scalar (fst (scan_str (case_text witness_tab))) = None /\
+  (exists m, snd (scan_str (case_text witness_tab)) = SError 82 m).
+Proof. vm_compute. repeat split. eexists. reflexivity. Qed.
+
+(* one line further down the same content is accepted: "|\n\n\tx\n" *)
+Definition witness_tab_second_line : bcase := mkcase true CClip None None [] [] [(O, []); (O, [9; 120])] EofNewline.
+Lemma witness_tab_second_line_ok : agrees witness_tab_second_line /\ case_value witness_tab_second_line = [10; 9; 120; 10].
 Proof. vm_compute. repeat split. Qed.
 
 Lemma C05_full_is_refuted : ~ C05_full.
 Proof.
-  intros H. destruct (H witness_clip_eof eq_refl ctx_bare) as [H1 _].
-  destruct witness_clip_eof_fails as [_ [_ [_ H2]]]. rewrite H2 in H1. clear H2 H. vm_compute in H1. discriminate H1.
+  intros H. destruct (H witness_tab eq_refl ctx_bare) as [H1 _].
+  destruct witness_tab_fails as [_ [_ [_ [H2 _]]]]. rewrite H2 in H1. discriminate H1.
 Qed.
+
+(* The witnesses of the three classes that refuted [C05_full] before the repairs 42046c7 and 001a921 of /repo: the
+   model pipeline now delivers the specified value on them (string input, buffered inputs of capacity 8 and 16). *)
+Definition former_witness_clip_eof : bcase := mkcase true CClip None None [] [] [R 1 "a"; R 1 ""] EofNone.
+Definition former_witness_keep_eof : bcase := mkcase true CKeep None (Some O) (L "k: ") [] [R 2 "a"; R 1 ""] EofNone.
+Definition former_witness_doc_start : bcase := mkcase true CClip None None [] [] [R 0 "a"] (EofRest (L "---/b/")).
+
+Lemma former_witness_clip_eof_ok :
+  agrees former_witness_clip_eof /\ case_text former_witness_clip_eof = L "|/ a/ " /\ case_value former_witness_clip_eof = L "a/".
+Proof. vm_compute. repeat split. Qed.
+Lemma former_witness_keep_eof_ok :
+  agrees former_witness_keep_eof /\ case_text former_witness_keep_eof = L "k: |+/  a/ " /\ case_value former_witness_keep_eof = L "a//".
+Proof. vm_compute. repeat split. Qed.
+Lemma former_witness_doc_start_ok :
+  agrees former_witness_doc_start /\ case_text former_witness_doc_start = L "|/a/---/b/" /\ case_value former_witness_doc_start = L "a/".
+Proof. vm_compute. repeat split. Qed.
